@@ -1909,3 +1909,1355 @@ impl DecoderState {
         Ok(())
     }
 }
+
+// ----- thorough tier: generated grid of partial-mode step shapes -----
+
+//@ harness props=C05,C15 tier=thorough unwind=22 unwindset=process_mode:7 mem_gb=4 timeout=900 native=no opt_covers=commit_and_carry,nothing_committed
+//@ bound: one process_stream call: carry 0 bytes, reader 0 bytes, symbol lengths 2,19,1(,20); contents/range/code symbolic; abstract symbols
+#[cfg_attr(kani, kani::proof)]
+#[cfg_attr(kani, kani::stub(std::fmt::format, crate::verif_common::stub_format))]
+#[cfg_attr(kani, kani::stub(std::io::Error::is_interrupted, crate::verif_common::stub_not_interrupted))]
+#[cfg_attr(kani, kani::stub(crate::decode::lzma::DecoderState::process_next_inner, crate::decode::lzma::verif_h::abs_symbol))]
+pub fn partial_p0_r0_l2_19_1() {
+    partial_step::<0, 0, 2, 19, 1>()
+}
+
+//@ harness props=C05,C15 tier=thorough unwind=22 unwindset=process_mode:7 mem_gb=4 timeout=900 native=no opt_covers=commit_and_carry,nothing_committed
+//@ bound: one process_stream call: carry 0 bytes, reader 0 bytes, symbol lengths 20,1,1(,20); contents/range/code symbolic; abstract symbols
+#[cfg_attr(kani, kani::proof)]
+#[cfg_attr(kani, kani::stub(std::fmt::format, crate::verif_common::stub_format))]
+#[cfg_attr(kani, kani::stub(std::io::Error::is_interrupted, crate::verif_common::stub_not_interrupted))]
+#[cfg_attr(kani, kani::stub(crate::decode::lzma::DecoderState::process_next_inner, crate::decode::lzma::verif_h::abs_symbol))]
+pub fn partial_p0_r0_l20_1_1() {
+    partial_step::<0, 0, 20, 1, 1>()
+}
+
+//@ harness props=C05,C15 tier=thorough unwind=22 unwindset=process_mode:7 mem_gb=4 timeout=900 native=no opt_covers=commit_and_carry,nothing_committed
+//@ bound: one process_stream call: carry 0 bytes, reader 0 bytes, symbol lengths 5,20,3(,20); contents/range/code symbolic; abstract symbols
+#[cfg_attr(kani, kani::proof)]
+#[cfg_attr(kani, kani::stub(std::fmt::format, crate::verif_common::stub_format))]
+#[cfg_attr(kani, kani::stub(std::io::Error::is_interrupted, crate::verif_common::stub_not_interrupted))]
+#[cfg_attr(kani, kani::stub(crate::decode::lzma::DecoderState::process_next_inner, crate::decode::lzma::verif_h::abs_symbol))]
+pub fn partial_p0_r0_l5_20_3() {
+    partial_step::<0, 0, 5, 20, 3>()
+}
+
+//@ harness props=C05,C15 tier=thorough unwind=22 unwindset=process_mode:7 mem_gb=4 timeout=900 native=no opt_covers=commit_and_carry,nothing_committed
+//@ bound: one process_stream call: carry 0 bytes, reader 0 bytes, symbol lengths 19,2,20(,20); contents/range/code symbolic; abstract symbols
+#[cfg_attr(kani, kani::proof)]
+#[cfg_attr(kani, kani::stub(std::fmt::format, crate::verif_common::stub_format))]
+#[cfg_attr(kani, kani::stub(std::io::Error::is_interrupted, crate::verif_common::stub_not_interrupted))]
+#[cfg_attr(kani, kani::stub(crate::decode::lzma::DecoderState::process_next_inner, crate::decode::lzma::verif_h::abs_symbol))]
+pub fn partial_p0_r0_l19_2_20() {
+    partial_step::<0, 0, 19, 2, 20>()
+}
+
+//@ harness props=C05,C15 tier=thorough unwind=22 unwindset=process_mode:7 mem_gb=4 timeout=900 native=no opt_covers=commit_and_carry,nothing_committed
+//@ bound: one process_stream call: carry 0 bytes, reader 1 bytes, symbol lengths 2,19,1(,20); contents/range/code symbolic; abstract symbols
+#[cfg_attr(kani, kani::proof)]
+#[cfg_attr(kani, kani::stub(std::fmt::format, crate::verif_common::stub_format))]
+#[cfg_attr(kani, kani::stub(std::io::Error::is_interrupted, crate::verif_common::stub_not_interrupted))]
+#[cfg_attr(kani, kani::stub(crate::decode::lzma::DecoderState::process_next_inner, crate::decode::lzma::verif_h::abs_symbol))]
+pub fn partial_p0_r1_l2_19_1() {
+    partial_step::<0, 1, 2, 19, 1>()
+}
+
+//@ harness props=C05,C15 tier=thorough unwind=22 unwindset=process_mode:7 mem_gb=4 timeout=900 native=no opt_covers=commit_and_carry,nothing_committed
+//@ bound: one process_stream call: carry 0 bytes, reader 1 bytes, symbol lengths 20,1,1(,20); contents/range/code symbolic; abstract symbols
+#[cfg_attr(kani, kani::proof)]
+#[cfg_attr(kani, kani::stub(std::fmt::format, crate::verif_common::stub_format))]
+#[cfg_attr(kani, kani::stub(std::io::Error::is_interrupted, crate::verif_common::stub_not_interrupted))]
+#[cfg_attr(kani, kani::stub(crate::decode::lzma::DecoderState::process_next_inner, crate::decode::lzma::verif_h::abs_symbol))]
+pub fn partial_p0_r1_l20_1_1() {
+    partial_step::<0, 1, 20, 1, 1>()
+}
+
+//@ harness props=C05,C15 tier=thorough unwind=22 unwindset=process_mode:7 mem_gb=4 timeout=900 native=no opt_covers=commit_and_carry,nothing_committed
+//@ bound: one process_stream call: carry 0 bytes, reader 1 bytes, symbol lengths 5,20,3(,20); contents/range/code symbolic; abstract symbols
+#[cfg_attr(kani, kani::proof)]
+#[cfg_attr(kani, kani::stub(std::fmt::format, crate::verif_common::stub_format))]
+#[cfg_attr(kani, kani::stub(std::io::Error::is_interrupted, crate::verif_common::stub_not_interrupted))]
+#[cfg_attr(kani, kani::stub(crate::decode::lzma::DecoderState::process_next_inner, crate::decode::lzma::verif_h::abs_symbol))]
+pub fn partial_p0_r1_l5_20_3() {
+    partial_step::<0, 1, 5, 20, 3>()
+}
+
+//@ harness props=C05,C15 tier=thorough unwind=22 unwindset=process_mode:7 mem_gb=4 timeout=900 native=no opt_covers=commit_and_carry,nothing_committed
+//@ bound: one process_stream call: carry 0 bytes, reader 1 bytes, symbol lengths 19,2,20(,20); contents/range/code symbolic; abstract symbols
+#[cfg_attr(kani, kani::proof)]
+#[cfg_attr(kani, kani::stub(std::fmt::format, crate::verif_common::stub_format))]
+#[cfg_attr(kani, kani::stub(std::io::Error::is_interrupted, crate::verif_common::stub_not_interrupted))]
+#[cfg_attr(kani, kani::stub(crate::decode::lzma::DecoderState::process_next_inner, crate::decode::lzma::verif_h::abs_symbol))]
+pub fn partial_p0_r1_l19_2_20() {
+    partial_step::<0, 1, 19, 2, 20>()
+}
+
+//@ harness props=C05,C15 tier=thorough unwind=22 unwindset=process_mode:7 mem_gb=4 timeout=900 native=no opt_covers=commit_and_carry,nothing_committed
+//@ bound: one process_stream call: carry 0 bytes, reader 3 bytes, symbol lengths 1,1,1(,20); contents/range/code symbolic; abstract symbols
+#[cfg_attr(kani, kani::proof)]
+#[cfg_attr(kani, kani::stub(std::fmt::format, crate::verif_common::stub_format))]
+#[cfg_attr(kani, kani::stub(std::io::Error::is_interrupted, crate::verif_common::stub_not_interrupted))]
+#[cfg_attr(kani, kani::stub(crate::decode::lzma::DecoderState::process_next_inner, crate::decode::lzma::verif_h::abs_symbol))]
+pub fn partial_p0_r3_l1_1_1() {
+    partial_step::<0, 3, 1, 1, 1>()
+}
+
+//@ harness props=C05,C15 tier=thorough unwind=22 unwindset=process_mode:7 mem_gb=4 timeout=900 native=no opt_covers=commit_and_carry,nothing_committed
+//@ bound: one process_stream call: carry 0 bytes, reader 3 bytes, symbol lengths 2,19,1(,20); contents/range/code symbolic; abstract symbols
+#[cfg_attr(kani, kani::proof)]
+#[cfg_attr(kani, kani::stub(std::fmt::format, crate::verif_common::stub_format))]
+#[cfg_attr(kani, kani::stub(std::io::Error::is_interrupted, crate::verif_common::stub_not_interrupted))]
+#[cfg_attr(kani, kani::stub(crate::decode::lzma::DecoderState::process_next_inner, crate::decode::lzma::verif_h::abs_symbol))]
+pub fn partial_p0_r3_l2_19_1() {
+    partial_step::<0, 3, 2, 19, 1>()
+}
+
+//@ harness props=C05,C15 tier=thorough unwind=22 unwindset=process_mode:7 mem_gb=4 timeout=900 native=no opt_covers=commit_and_carry,nothing_committed
+//@ bound: one process_stream call: carry 0 bytes, reader 3 bytes, symbol lengths 20,1,1(,20); contents/range/code symbolic; abstract symbols
+#[cfg_attr(kani, kani::proof)]
+#[cfg_attr(kani, kani::stub(std::fmt::format, crate::verif_common::stub_format))]
+#[cfg_attr(kani, kani::stub(std::io::Error::is_interrupted, crate::verif_common::stub_not_interrupted))]
+#[cfg_attr(kani, kani::stub(crate::decode::lzma::DecoderState::process_next_inner, crate::decode::lzma::verif_h::abs_symbol))]
+pub fn partial_p0_r3_l20_1_1() {
+    partial_step::<0, 3, 20, 1, 1>()
+}
+
+//@ harness props=C05,C15 tier=thorough unwind=22 unwindset=process_mode:7 mem_gb=4 timeout=900 native=no opt_covers=commit_and_carry,nothing_committed
+//@ bound: one process_stream call: carry 0 bytes, reader 3 bytes, symbol lengths 5,20,3(,20); contents/range/code symbolic; abstract symbols
+#[cfg_attr(kani, kani::proof)]
+#[cfg_attr(kani, kani::stub(std::fmt::format, crate::verif_common::stub_format))]
+#[cfg_attr(kani, kani::stub(std::io::Error::is_interrupted, crate::verif_common::stub_not_interrupted))]
+#[cfg_attr(kani, kani::stub(crate::decode::lzma::DecoderState::process_next_inner, crate::decode::lzma::verif_h::abs_symbol))]
+pub fn partial_p0_r3_l5_20_3() {
+    partial_step::<0, 3, 5, 20, 3>()
+}
+
+//@ harness props=C05,C15 tier=thorough unwind=22 unwindset=process_mode:7 mem_gb=4 timeout=900 native=no opt_covers=commit_and_carry,nothing_committed
+//@ bound: one process_stream call: carry 0 bytes, reader 3 bytes, symbol lengths 19,2,20(,20); contents/range/code symbolic; abstract symbols
+#[cfg_attr(kani, kani::proof)]
+#[cfg_attr(kani, kani::stub(std::fmt::format, crate::verif_common::stub_format))]
+#[cfg_attr(kani, kani::stub(std::io::Error::is_interrupted, crate::verif_common::stub_not_interrupted))]
+#[cfg_attr(kani, kani::stub(crate::decode::lzma::DecoderState::process_next_inner, crate::decode::lzma::verif_h::abs_symbol))]
+pub fn partial_p0_r3_l19_2_20() {
+    partial_step::<0, 3, 19, 2, 20>()
+}
+
+//@ harness props=C05,C15 tier=thorough unwind=22 unwindset=process_mode:7 mem_gb=4 timeout=900 native=no opt_covers=commit_and_carry,nothing_committed
+//@ bound: one process_stream call: carry 0 bytes, reader 8 bytes, symbol lengths 1,1,1(,20); contents/range/code symbolic; abstract symbols
+#[cfg_attr(kani, kani::proof)]
+#[cfg_attr(kani, kani::stub(std::fmt::format, crate::verif_common::stub_format))]
+#[cfg_attr(kani, kani::stub(std::io::Error::is_interrupted, crate::verif_common::stub_not_interrupted))]
+#[cfg_attr(kani, kani::stub(crate::decode::lzma::DecoderState::process_next_inner, crate::decode::lzma::verif_h::abs_symbol))]
+pub fn partial_p0_r8_l1_1_1() {
+    partial_step::<0, 8, 1, 1, 1>()
+}
+
+//@ harness props=C05,C15 tier=thorough unwind=22 unwindset=process_mode:7 mem_gb=4 timeout=900 native=no opt_covers=commit_and_carry,nothing_committed
+//@ bound: one process_stream call: carry 0 bytes, reader 8 bytes, symbol lengths 2,19,1(,20); contents/range/code symbolic; abstract symbols
+#[cfg_attr(kani, kani::proof)]
+#[cfg_attr(kani, kani::stub(std::fmt::format, crate::verif_common::stub_format))]
+#[cfg_attr(kani, kani::stub(std::io::Error::is_interrupted, crate::verif_common::stub_not_interrupted))]
+#[cfg_attr(kani, kani::stub(crate::decode::lzma::DecoderState::process_next_inner, crate::decode::lzma::verif_h::abs_symbol))]
+pub fn partial_p0_r8_l2_19_1() {
+    partial_step::<0, 8, 2, 19, 1>()
+}
+
+//@ harness props=C05,C15 tier=thorough unwind=22 unwindset=process_mode:7 mem_gb=4 timeout=900 native=no opt_covers=commit_and_carry,nothing_committed
+//@ bound: one process_stream call: carry 0 bytes, reader 8 bytes, symbol lengths 5,20,3(,20); contents/range/code symbolic; abstract symbols
+#[cfg_attr(kani, kani::proof)]
+#[cfg_attr(kani, kani::stub(std::fmt::format, crate::verif_common::stub_format))]
+#[cfg_attr(kani, kani::stub(std::io::Error::is_interrupted, crate::verif_common::stub_not_interrupted))]
+#[cfg_attr(kani, kani::stub(crate::decode::lzma::DecoderState::process_next_inner, crate::decode::lzma::verif_h::abs_symbol))]
+pub fn partial_p0_r8_l5_20_3() {
+    partial_step::<0, 8, 5, 20, 3>()
+}
+
+//@ harness props=C05,C15 tier=thorough unwind=22 unwindset=process_mode:7 mem_gb=4 timeout=900 native=no opt_covers=commit_and_carry,nothing_committed
+//@ bound: one process_stream call: carry 0 bytes, reader 8 bytes, symbol lengths 19,2,20(,20); contents/range/code symbolic; abstract symbols
+#[cfg_attr(kani, kani::proof)]
+#[cfg_attr(kani, kani::stub(std::fmt::format, crate::verif_common::stub_format))]
+#[cfg_attr(kani, kani::stub(std::io::Error::is_interrupted, crate::verif_common::stub_not_interrupted))]
+#[cfg_attr(kani, kani::stub(crate::decode::lzma::DecoderState::process_next_inner, crate::decode::lzma::verif_h::abs_symbol))]
+pub fn partial_p0_r8_l19_2_20() {
+    partial_step::<0, 8, 19, 2, 20>()
+}
+
+//@ harness props=C05,C15 tier=thorough unwind=22 unwindset=process_mode:7 mem_gb=4 timeout=900 native=no opt_covers=commit_and_carry,nothing_committed
+//@ bound: one process_stream call: carry 1 bytes, reader 0 bytes, symbol lengths 1,1,1(,20); contents/range/code symbolic; abstract symbols
+#[cfg_attr(kani, kani::proof)]
+#[cfg_attr(kani, kani::stub(std::fmt::format, crate::verif_common::stub_format))]
+#[cfg_attr(kani, kani::stub(std::io::Error::is_interrupted, crate::verif_common::stub_not_interrupted))]
+#[cfg_attr(kani, kani::stub(crate::decode::lzma::DecoderState::process_next_inner, crate::decode::lzma::verif_h::abs_symbol))]
+pub fn partial_p1_r0_l1_1_1() {
+    partial_step::<1, 0, 1, 1, 1>()
+}
+
+//@ harness props=C05,C15 tier=thorough unwind=22 unwindset=process_mode:7 mem_gb=4 timeout=900 native=no opt_covers=commit_and_carry,nothing_committed
+//@ bound: one process_stream call: carry 1 bytes, reader 0 bytes, symbol lengths 2,19,1(,20); contents/range/code symbolic; abstract symbols
+#[cfg_attr(kani, kani::proof)]
+#[cfg_attr(kani, kani::stub(std::fmt::format, crate::verif_common::stub_format))]
+#[cfg_attr(kani, kani::stub(std::io::Error::is_interrupted, crate::verif_common::stub_not_interrupted))]
+#[cfg_attr(kani, kani::stub(crate::decode::lzma::DecoderState::process_next_inner, crate::decode::lzma::verif_h::abs_symbol))]
+pub fn partial_p1_r0_l2_19_1() {
+    partial_step::<1, 0, 2, 19, 1>()
+}
+
+//@ harness props=C05,C15 tier=thorough unwind=22 unwindset=process_mode:7 mem_gb=4 timeout=900 native=no opt_covers=commit_and_carry,nothing_committed
+//@ bound: one process_stream call: carry 1 bytes, reader 0 bytes, symbol lengths 20,1,1(,20); contents/range/code symbolic; abstract symbols
+#[cfg_attr(kani, kani::proof)]
+#[cfg_attr(kani, kani::stub(std::fmt::format, crate::verif_common::stub_format))]
+#[cfg_attr(kani, kani::stub(std::io::Error::is_interrupted, crate::verif_common::stub_not_interrupted))]
+#[cfg_attr(kani, kani::stub(crate::decode::lzma::DecoderState::process_next_inner, crate::decode::lzma::verif_h::abs_symbol))]
+pub fn partial_p1_r0_l20_1_1() {
+    partial_step::<1, 0, 20, 1, 1>()
+}
+
+//@ harness props=C05,C15 tier=thorough unwind=22 unwindset=process_mode:7 mem_gb=4 timeout=900 native=no opt_covers=commit_and_carry,nothing_committed
+//@ bound: one process_stream call: carry 1 bytes, reader 0 bytes, symbol lengths 5,20,3(,20); contents/range/code symbolic; abstract symbols
+#[cfg_attr(kani, kani::proof)]
+#[cfg_attr(kani, kani::stub(std::fmt::format, crate::verif_common::stub_format))]
+#[cfg_attr(kani, kani::stub(std::io::Error::is_interrupted, crate::verif_common::stub_not_interrupted))]
+#[cfg_attr(kani, kani::stub(crate::decode::lzma::DecoderState::process_next_inner, crate::decode::lzma::verif_h::abs_symbol))]
+pub fn partial_p1_r0_l5_20_3() {
+    partial_step::<1, 0, 5, 20, 3>()
+}
+
+//@ harness props=C05,C15 tier=thorough unwind=22 unwindset=process_mode:7 mem_gb=4 timeout=900 native=no opt_covers=commit_and_carry,nothing_committed
+//@ bound: one process_stream call: carry 1 bytes, reader 0 bytes, symbol lengths 19,2,20(,20); contents/range/code symbolic; abstract symbols
+#[cfg_attr(kani, kani::proof)]
+#[cfg_attr(kani, kani::stub(std::fmt::format, crate::verif_common::stub_format))]
+#[cfg_attr(kani, kani::stub(std::io::Error::is_interrupted, crate::verif_common::stub_not_interrupted))]
+#[cfg_attr(kani, kani::stub(crate::decode::lzma::DecoderState::process_next_inner, crate::decode::lzma::verif_h::abs_symbol))]
+pub fn partial_p1_r0_l19_2_20() {
+    partial_step::<1, 0, 19, 2, 20>()
+}
+
+//@ harness props=C05,C15 tier=thorough unwind=22 unwindset=process_mode:7 mem_gb=4 timeout=900 native=no opt_covers=commit_and_carry,nothing_committed
+//@ bound: one process_stream call: carry 1 bytes, reader 1 bytes, symbol lengths 1,1,1(,20); contents/range/code symbolic; abstract symbols
+#[cfg_attr(kani, kani::proof)]
+#[cfg_attr(kani, kani::stub(std::fmt::format, crate::verif_common::stub_format))]
+#[cfg_attr(kani, kani::stub(std::io::Error::is_interrupted, crate::verif_common::stub_not_interrupted))]
+#[cfg_attr(kani, kani::stub(crate::decode::lzma::DecoderState::process_next_inner, crate::decode::lzma::verif_h::abs_symbol))]
+pub fn partial_p1_r1_l1_1_1() {
+    partial_step::<1, 1, 1, 1, 1>()
+}
+
+//@ harness props=C05,C15 tier=thorough unwind=22 unwindset=process_mode:7 mem_gb=4 timeout=900 native=no opt_covers=commit_and_carry,nothing_committed
+//@ bound: one process_stream call: carry 1 bytes, reader 1 bytes, symbol lengths 2,19,1(,20); contents/range/code symbolic; abstract symbols
+#[cfg_attr(kani, kani::proof)]
+#[cfg_attr(kani, kani::stub(std::fmt::format, crate::verif_common::stub_format))]
+#[cfg_attr(kani, kani::stub(std::io::Error::is_interrupted, crate::verif_common::stub_not_interrupted))]
+#[cfg_attr(kani, kani::stub(crate::decode::lzma::DecoderState::process_next_inner, crate::decode::lzma::verif_h::abs_symbol))]
+pub fn partial_p1_r1_l2_19_1() {
+    partial_step::<1, 1, 2, 19, 1>()
+}
+
+//@ harness props=C05,C15 tier=thorough unwind=22 unwindset=process_mode:7 mem_gb=4 timeout=900 native=no opt_covers=commit_and_carry,nothing_committed
+//@ bound: one process_stream call: carry 1 bytes, reader 1 bytes, symbol lengths 20,1,1(,20); contents/range/code symbolic; abstract symbols
+#[cfg_attr(kani, kani::proof)]
+#[cfg_attr(kani, kani::stub(std::fmt::format, crate::verif_common::stub_format))]
+#[cfg_attr(kani, kani::stub(std::io::Error::is_interrupted, crate::verif_common::stub_not_interrupted))]
+#[cfg_attr(kani, kani::stub(crate::decode::lzma::DecoderState::process_next_inner, crate::decode::lzma::verif_h::abs_symbol))]
+pub fn partial_p1_r1_l20_1_1() {
+    partial_step::<1, 1, 20, 1, 1>()
+}
+
+//@ harness props=C05,C15 tier=thorough unwind=22 unwindset=process_mode:7 mem_gb=4 timeout=900 native=no opt_covers=commit_and_carry,nothing_committed
+//@ bound: one process_stream call: carry 1 bytes, reader 1 bytes, symbol lengths 5,20,3(,20); contents/range/code symbolic; abstract symbols
+#[cfg_attr(kani, kani::proof)]
+#[cfg_attr(kani, kani::stub(std::fmt::format, crate::verif_common::stub_format))]
+#[cfg_attr(kani, kani::stub(std::io::Error::is_interrupted, crate::verif_common::stub_not_interrupted))]
+#[cfg_attr(kani, kani::stub(crate::decode::lzma::DecoderState::process_next_inner, crate::decode::lzma::verif_h::abs_symbol))]
+pub fn partial_p1_r1_l5_20_3() {
+    partial_step::<1, 1, 5, 20, 3>()
+}
+
+//@ harness props=C05,C15 tier=thorough unwind=22 unwindset=process_mode:7 mem_gb=4 timeout=900 native=no opt_covers=commit_and_carry,nothing_committed
+//@ bound: one process_stream call: carry 1 bytes, reader 1 bytes, symbol lengths 19,2,20(,20); contents/range/code symbolic; abstract symbols
+#[cfg_attr(kani, kani::proof)]
+#[cfg_attr(kani, kani::stub(std::fmt::format, crate::verif_common::stub_format))]
+#[cfg_attr(kani, kani::stub(std::io::Error::is_interrupted, crate::verif_common::stub_not_interrupted))]
+#[cfg_attr(kani, kani::stub(crate::decode::lzma::DecoderState::process_next_inner, crate::decode::lzma::verif_h::abs_symbol))]
+pub fn partial_p1_r1_l19_2_20() {
+    partial_step::<1, 1, 19, 2, 20>()
+}
+
+//@ harness props=C05,C15 tier=thorough unwind=22 unwindset=process_mode:7 mem_gb=4 timeout=900 native=no opt_covers=commit_and_carry,nothing_committed
+//@ bound: one process_stream call: carry 1 bytes, reader 3 bytes, symbol lengths 1,1,1(,20); contents/range/code symbolic; abstract symbols
+#[cfg_attr(kani, kani::proof)]
+#[cfg_attr(kani, kani::stub(std::fmt::format, crate::verif_common::stub_format))]
+#[cfg_attr(kani, kani::stub(std::io::Error::is_interrupted, crate::verif_common::stub_not_interrupted))]
+#[cfg_attr(kani, kani::stub(crate::decode::lzma::DecoderState::process_next_inner, crate::decode::lzma::verif_h::abs_symbol))]
+pub fn partial_p1_r3_l1_1_1() {
+    partial_step::<1, 3, 1, 1, 1>()
+}
+
+//@ harness props=C05,C15 tier=thorough unwind=22 unwindset=process_mode:7 mem_gb=4 timeout=900 native=no opt_covers=commit_and_carry,nothing_committed
+//@ bound: one process_stream call: carry 1 bytes, reader 3 bytes, symbol lengths 2,19,1(,20); contents/range/code symbolic; abstract symbols
+#[cfg_attr(kani, kani::proof)]
+#[cfg_attr(kani, kani::stub(std::fmt::format, crate::verif_common::stub_format))]
+#[cfg_attr(kani, kani::stub(std::io::Error::is_interrupted, crate::verif_common::stub_not_interrupted))]
+#[cfg_attr(kani, kani::stub(crate::decode::lzma::DecoderState::process_next_inner, crate::decode::lzma::verif_h::abs_symbol))]
+pub fn partial_p1_r3_l2_19_1() {
+    partial_step::<1, 3, 2, 19, 1>()
+}
+
+//@ harness props=C05,C15 tier=thorough unwind=22 unwindset=process_mode:7 mem_gb=4 timeout=900 native=no opt_covers=commit_and_carry,nothing_committed
+//@ bound: one process_stream call: carry 1 bytes, reader 3 bytes, symbol lengths 20,1,1(,20); contents/range/code symbolic; abstract symbols
+#[cfg_attr(kani, kani::proof)]
+#[cfg_attr(kani, kani::stub(std::fmt::format, crate::verif_common::stub_format))]
+#[cfg_attr(kani, kani::stub(std::io::Error::is_interrupted, crate::verif_common::stub_not_interrupted))]
+#[cfg_attr(kani, kani::stub(crate::decode::lzma::DecoderState::process_next_inner, crate::decode::lzma::verif_h::abs_symbol))]
+pub fn partial_p1_r3_l20_1_1() {
+    partial_step::<1, 3, 20, 1, 1>()
+}
+
+//@ harness props=C05,C15 tier=thorough unwind=22 unwindset=process_mode:7 mem_gb=4 timeout=900 native=no opt_covers=commit_and_carry,nothing_committed
+//@ bound: one process_stream call: carry 1 bytes, reader 3 bytes, symbol lengths 5,20,3(,20); contents/range/code symbolic; abstract symbols
+#[cfg_attr(kani, kani::proof)]
+#[cfg_attr(kani, kani::stub(std::fmt::format, crate::verif_common::stub_format))]
+#[cfg_attr(kani, kani::stub(std::io::Error::is_interrupted, crate::verif_common::stub_not_interrupted))]
+#[cfg_attr(kani, kani::stub(crate::decode::lzma::DecoderState::process_next_inner, crate::decode::lzma::verif_h::abs_symbol))]
+pub fn partial_p1_r3_l5_20_3() {
+    partial_step::<1, 3, 5, 20, 3>()
+}
+
+//@ harness props=C05,C15 tier=thorough unwind=22 unwindset=process_mode:7 mem_gb=4 timeout=900 native=no opt_covers=commit_and_carry,nothing_committed
+//@ bound: one process_stream call: carry 1 bytes, reader 3 bytes, symbol lengths 19,2,20(,20); contents/range/code symbolic; abstract symbols
+#[cfg_attr(kani, kani::proof)]
+#[cfg_attr(kani, kani::stub(std::fmt::format, crate::verif_common::stub_format))]
+#[cfg_attr(kani, kani::stub(std::io::Error::is_interrupted, crate::verif_common::stub_not_interrupted))]
+#[cfg_attr(kani, kani::stub(crate::decode::lzma::DecoderState::process_next_inner, crate::decode::lzma::verif_h::abs_symbol))]
+pub fn partial_p1_r3_l19_2_20() {
+    partial_step::<1, 3, 19, 2, 20>()
+}
+
+//@ harness props=C05,C15 tier=thorough unwind=22 unwindset=process_mode:7 mem_gb=4 timeout=900 native=no opt_covers=commit_and_carry,nothing_committed
+//@ bound: one process_stream call: carry 1 bytes, reader 8 bytes, symbol lengths 1,1,1(,20); contents/range/code symbolic; abstract symbols
+#[cfg_attr(kani, kani::proof)]
+#[cfg_attr(kani, kani::stub(std::fmt::format, crate::verif_common::stub_format))]
+#[cfg_attr(kani, kani::stub(std::io::Error::is_interrupted, crate::verif_common::stub_not_interrupted))]
+#[cfg_attr(kani, kani::stub(crate::decode::lzma::DecoderState::process_next_inner, crate::decode::lzma::verif_h::abs_symbol))]
+pub fn partial_p1_r8_l1_1_1() {
+    partial_step::<1, 8, 1, 1, 1>()
+}
+
+//@ harness props=C05,C15 tier=thorough unwind=22 unwindset=process_mode:7 mem_gb=4 timeout=900 native=no opt_covers=commit_and_carry,nothing_committed
+//@ bound: one process_stream call: carry 1 bytes, reader 8 bytes, symbol lengths 2,19,1(,20); contents/range/code symbolic; abstract symbols
+#[cfg_attr(kani, kani::proof)]
+#[cfg_attr(kani, kani::stub(std::fmt::format, crate::verif_common::stub_format))]
+#[cfg_attr(kani, kani::stub(std::io::Error::is_interrupted, crate::verif_common::stub_not_interrupted))]
+#[cfg_attr(kani, kani::stub(crate::decode::lzma::DecoderState::process_next_inner, crate::decode::lzma::verif_h::abs_symbol))]
+pub fn partial_p1_r8_l2_19_1() {
+    partial_step::<1, 8, 2, 19, 1>()
+}
+
+//@ harness props=C05,C15 tier=thorough unwind=22 unwindset=process_mode:7 mem_gb=4 timeout=900 native=no opt_covers=commit_and_carry,nothing_committed
+//@ bound: one process_stream call: carry 1 bytes, reader 8 bytes, symbol lengths 20,1,1(,20); contents/range/code symbolic; abstract symbols
+#[cfg_attr(kani, kani::proof)]
+#[cfg_attr(kani, kani::stub(std::fmt::format, crate::verif_common::stub_format))]
+#[cfg_attr(kani, kani::stub(std::io::Error::is_interrupted, crate::verif_common::stub_not_interrupted))]
+#[cfg_attr(kani, kani::stub(crate::decode::lzma::DecoderState::process_next_inner, crate::decode::lzma::verif_h::abs_symbol))]
+pub fn partial_p1_r8_l20_1_1() {
+    partial_step::<1, 8, 20, 1, 1>()
+}
+
+//@ harness props=C05,C15 tier=thorough unwind=22 unwindset=process_mode:7 mem_gb=4 timeout=900 native=no opt_covers=commit_and_carry,nothing_committed
+//@ bound: one process_stream call: carry 1 bytes, reader 8 bytes, symbol lengths 5,20,3(,20); contents/range/code symbolic; abstract symbols
+#[cfg_attr(kani, kani::proof)]
+#[cfg_attr(kani, kani::stub(std::fmt::format, crate::verif_common::stub_format))]
+#[cfg_attr(kani, kani::stub(std::io::Error::is_interrupted, crate::verif_common::stub_not_interrupted))]
+#[cfg_attr(kani, kani::stub(crate::decode::lzma::DecoderState::process_next_inner, crate::decode::lzma::verif_h::abs_symbol))]
+pub fn partial_p1_r8_l5_20_3() {
+    partial_step::<1, 8, 5, 20, 3>()
+}
+
+//@ harness props=C05,C15 tier=thorough unwind=22 unwindset=process_mode:7 mem_gb=4 timeout=900 native=no opt_covers=commit_and_carry,nothing_committed
+//@ bound: one process_stream call: carry 1 bytes, reader 8 bytes, symbol lengths 19,2,20(,20); contents/range/code symbolic; abstract symbols
+#[cfg_attr(kani, kani::proof)]
+#[cfg_attr(kani, kani::stub(std::fmt::format, crate::verif_common::stub_format))]
+#[cfg_attr(kani, kani::stub(std::io::Error::is_interrupted, crate::verif_common::stub_not_interrupted))]
+#[cfg_attr(kani, kani::stub(crate::decode::lzma::DecoderState::process_next_inner, crate::decode::lzma::verif_h::abs_symbol))]
+pub fn partial_p1_r8_l19_2_20() {
+    partial_step::<1, 8, 19, 2, 20>()
+}
+
+//@ harness props=C05,C15 tier=thorough unwind=22 unwindset=process_mode:7 mem_gb=4 timeout=900 native=no opt_covers=commit_and_carry,nothing_committed
+//@ bound: one process_stream call: carry 2 bytes, reader 0 bytes, symbol lengths 1,1,1(,20); contents/range/code symbolic; abstract symbols
+#[cfg_attr(kani, kani::proof)]
+#[cfg_attr(kani, kani::stub(std::fmt::format, crate::verif_common::stub_format))]
+#[cfg_attr(kani, kani::stub(std::io::Error::is_interrupted, crate::verif_common::stub_not_interrupted))]
+#[cfg_attr(kani, kani::stub(crate::decode::lzma::DecoderState::process_next_inner, crate::decode::lzma::verif_h::abs_symbol))]
+pub fn partial_p2_r0_l1_1_1() {
+    partial_step::<2, 0, 1, 1, 1>()
+}
+
+//@ harness props=C05,C15 tier=thorough unwind=22 unwindset=process_mode:7 mem_gb=4 timeout=900 native=no opt_covers=commit_and_carry,nothing_committed
+//@ bound: one process_stream call: carry 2 bytes, reader 0 bytes, symbol lengths 2,19,1(,20); contents/range/code symbolic; abstract symbols
+#[cfg_attr(kani, kani::proof)]
+#[cfg_attr(kani, kani::stub(std::fmt::format, crate::verif_common::stub_format))]
+#[cfg_attr(kani, kani::stub(std::io::Error::is_interrupted, crate::verif_common::stub_not_interrupted))]
+#[cfg_attr(kani, kani::stub(crate::decode::lzma::DecoderState::process_next_inner, crate::decode::lzma::verif_h::abs_symbol))]
+pub fn partial_p2_r0_l2_19_1() {
+    partial_step::<2, 0, 2, 19, 1>()
+}
+
+//@ harness props=C05,C15 tier=thorough unwind=22 unwindset=process_mode:7 mem_gb=4 timeout=900 native=no opt_covers=commit_and_carry,nothing_committed
+//@ bound: one process_stream call: carry 2 bytes, reader 0 bytes, symbol lengths 20,1,1(,20); contents/range/code symbolic; abstract symbols
+#[cfg_attr(kani, kani::proof)]
+#[cfg_attr(kani, kani::stub(std::fmt::format, crate::verif_common::stub_format))]
+#[cfg_attr(kani, kani::stub(std::io::Error::is_interrupted, crate::verif_common::stub_not_interrupted))]
+#[cfg_attr(kani, kani::stub(crate::decode::lzma::DecoderState::process_next_inner, crate::decode::lzma::verif_h::abs_symbol))]
+pub fn partial_p2_r0_l20_1_1() {
+    partial_step::<2, 0, 20, 1, 1>()
+}
+
+//@ harness props=C05,C15 tier=thorough unwind=22 unwindset=process_mode:7 mem_gb=4 timeout=900 native=no opt_covers=commit_and_carry,nothing_committed
+//@ bound: one process_stream call: carry 2 bytes, reader 0 bytes, symbol lengths 5,20,3(,20); contents/range/code symbolic; abstract symbols
+#[cfg_attr(kani, kani::proof)]
+#[cfg_attr(kani, kani::stub(std::fmt::format, crate::verif_common::stub_format))]
+#[cfg_attr(kani, kani::stub(std::io::Error::is_interrupted, crate::verif_common::stub_not_interrupted))]
+#[cfg_attr(kani, kani::stub(crate::decode::lzma::DecoderState::process_next_inner, crate::decode::lzma::verif_h::abs_symbol))]
+pub fn partial_p2_r0_l5_20_3() {
+    partial_step::<2, 0, 5, 20, 3>()
+}
+
+//@ harness props=C05,C15 tier=thorough unwind=22 unwindset=process_mode:7 mem_gb=4 timeout=900 native=no opt_covers=commit_and_carry,nothing_committed
+//@ bound: one process_stream call: carry 2 bytes, reader 0 bytes, symbol lengths 19,2,20(,20); contents/range/code symbolic; abstract symbols
+#[cfg_attr(kani, kani::proof)]
+#[cfg_attr(kani, kani::stub(std::fmt::format, crate::verif_common::stub_format))]
+#[cfg_attr(kani, kani::stub(std::io::Error::is_interrupted, crate::verif_common::stub_not_interrupted))]
+#[cfg_attr(kani, kani::stub(crate::decode::lzma::DecoderState::process_next_inner, crate::decode::lzma::verif_h::abs_symbol))]
+pub fn partial_p2_r0_l19_2_20() {
+    partial_step::<2, 0, 19, 2, 20>()
+}
+
+//@ harness props=C05,C15 tier=thorough unwind=22 unwindset=process_mode:7 mem_gb=4 timeout=900 native=no opt_covers=commit_and_carry,nothing_committed
+//@ bound: one process_stream call: carry 2 bytes, reader 1 bytes, symbol lengths 1,1,1(,20); contents/range/code symbolic; abstract symbols
+#[cfg_attr(kani, kani::proof)]
+#[cfg_attr(kani, kani::stub(std::fmt::format, crate::verif_common::stub_format))]
+#[cfg_attr(kani, kani::stub(std::io::Error::is_interrupted, crate::verif_common::stub_not_interrupted))]
+#[cfg_attr(kani, kani::stub(crate::decode::lzma::DecoderState::process_next_inner, crate::decode::lzma::verif_h::abs_symbol))]
+pub fn partial_p2_r1_l1_1_1() {
+    partial_step::<2, 1, 1, 1, 1>()
+}
+
+//@ harness props=C05,C15 tier=thorough unwind=22 unwindset=process_mode:7 mem_gb=4 timeout=900 native=no opt_covers=commit_and_carry,nothing_committed
+//@ bound: one process_stream call: carry 2 bytes, reader 1 bytes, symbol lengths 2,19,1(,20); contents/range/code symbolic; abstract symbols
+#[cfg_attr(kani, kani::proof)]
+#[cfg_attr(kani, kani::stub(std::fmt::format, crate::verif_common::stub_format))]
+#[cfg_attr(kani, kani::stub(std::io::Error::is_interrupted, crate::verif_common::stub_not_interrupted))]
+#[cfg_attr(kani, kani::stub(crate::decode::lzma::DecoderState::process_next_inner, crate::decode::lzma::verif_h::abs_symbol))]
+pub fn partial_p2_r1_l2_19_1() {
+    partial_step::<2, 1, 2, 19, 1>()
+}
+
+//@ harness props=C05,C15 tier=thorough unwind=22 unwindset=process_mode:7 mem_gb=4 timeout=900 native=no opt_covers=commit_and_carry,nothing_committed
+//@ bound: one process_stream call: carry 2 bytes, reader 1 bytes, symbol lengths 20,1,1(,20); contents/range/code symbolic; abstract symbols
+#[cfg_attr(kani, kani::proof)]
+#[cfg_attr(kani, kani::stub(std::fmt::format, crate::verif_common::stub_format))]
+#[cfg_attr(kani, kani::stub(std::io::Error::is_interrupted, crate::verif_common::stub_not_interrupted))]
+#[cfg_attr(kani, kani::stub(crate::decode::lzma::DecoderState::process_next_inner, crate::decode::lzma::verif_h::abs_symbol))]
+pub fn partial_p2_r1_l20_1_1() {
+    partial_step::<2, 1, 20, 1, 1>()
+}
+
+//@ harness props=C05,C15 tier=thorough unwind=22 unwindset=process_mode:7 mem_gb=4 timeout=900 native=no opt_covers=commit_and_carry,nothing_committed
+//@ bound: one process_stream call: carry 2 bytes, reader 1 bytes, symbol lengths 5,20,3(,20); contents/range/code symbolic; abstract symbols
+#[cfg_attr(kani, kani::proof)]
+#[cfg_attr(kani, kani::stub(std::fmt::format, crate::verif_common::stub_format))]
+#[cfg_attr(kani, kani::stub(std::io::Error::is_interrupted, crate::verif_common::stub_not_interrupted))]
+#[cfg_attr(kani, kani::stub(crate::decode::lzma::DecoderState::process_next_inner, crate::decode::lzma::verif_h::abs_symbol))]
+pub fn partial_p2_r1_l5_20_3() {
+    partial_step::<2, 1, 5, 20, 3>()
+}
+
+//@ harness props=C05,C15 tier=thorough unwind=22 unwindset=process_mode:7 mem_gb=4 timeout=900 native=no opt_covers=commit_and_carry,nothing_committed
+//@ bound: one process_stream call: carry 2 bytes, reader 1 bytes, symbol lengths 19,2,20(,20); contents/range/code symbolic; abstract symbols
+#[cfg_attr(kani, kani::proof)]
+#[cfg_attr(kani, kani::stub(std::fmt::format, crate::verif_common::stub_format))]
+#[cfg_attr(kani, kani::stub(std::io::Error::is_interrupted, crate::verif_common::stub_not_interrupted))]
+#[cfg_attr(kani, kani::stub(crate::decode::lzma::DecoderState::process_next_inner, crate::decode::lzma::verif_h::abs_symbol))]
+pub fn partial_p2_r1_l19_2_20() {
+    partial_step::<2, 1, 19, 2, 20>()
+}
+
+//@ harness props=C05,C15 tier=thorough unwind=22 unwindset=process_mode:7 mem_gb=4 timeout=900 native=no opt_covers=commit_and_carry,nothing_committed
+//@ bound: one process_stream call: carry 2 bytes, reader 3 bytes, symbol lengths 2,19,1(,20); contents/range/code symbolic; abstract symbols
+#[cfg_attr(kani, kani::proof)]
+#[cfg_attr(kani, kani::stub(std::fmt::format, crate::verif_common::stub_format))]
+#[cfg_attr(kani, kani::stub(std::io::Error::is_interrupted, crate::verif_common::stub_not_interrupted))]
+#[cfg_attr(kani, kani::stub(crate::decode::lzma::DecoderState::process_next_inner, crate::decode::lzma::verif_h::abs_symbol))]
+pub fn partial_p2_r3_l2_19_1() {
+    partial_step::<2, 3, 2, 19, 1>()
+}
+
+//@ harness props=C05,C15 tier=thorough unwind=22 unwindset=process_mode:7 mem_gb=4 timeout=900 native=no opt_covers=commit_and_carry,nothing_committed
+//@ bound: one process_stream call: carry 2 bytes, reader 3 bytes, symbol lengths 20,1,1(,20); contents/range/code symbolic; abstract symbols
+#[cfg_attr(kani, kani::proof)]
+#[cfg_attr(kani, kani::stub(std::fmt::format, crate::verif_common::stub_format))]
+#[cfg_attr(kani, kani::stub(std::io::Error::is_interrupted, crate::verif_common::stub_not_interrupted))]
+#[cfg_attr(kani, kani::stub(crate::decode::lzma::DecoderState::process_next_inner, crate::decode::lzma::verif_h::abs_symbol))]
+pub fn partial_p2_r3_l20_1_1() {
+    partial_step::<2, 3, 20, 1, 1>()
+}
+
+//@ harness props=C05,C15 tier=thorough unwind=22 unwindset=process_mode:7 mem_gb=4 timeout=900 native=no opt_covers=commit_and_carry,nothing_committed
+//@ bound: one process_stream call: carry 2 bytes, reader 3 bytes, symbol lengths 5,20,3(,20); contents/range/code symbolic; abstract symbols
+#[cfg_attr(kani, kani::proof)]
+#[cfg_attr(kani, kani::stub(std::fmt::format, crate::verif_common::stub_format))]
+#[cfg_attr(kani, kani::stub(std::io::Error::is_interrupted, crate::verif_common::stub_not_interrupted))]
+#[cfg_attr(kani, kani::stub(crate::decode::lzma::DecoderState::process_next_inner, crate::decode::lzma::verif_h::abs_symbol))]
+pub fn partial_p2_r3_l5_20_3() {
+    partial_step::<2, 3, 5, 20, 3>()
+}
+
+//@ harness props=C05,C15 tier=thorough unwind=22 unwindset=process_mode:7 mem_gb=4 timeout=900 native=no opt_covers=commit_and_carry,nothing_committed
+//@ bound: one process_stream call: carry 2 bytes, reader 3 bytes, symbol lengths 19,2,20(,20); contents/range/code symbolic; abstract symbols
+#[cfg_attr(kani, kani::proof)]
+#[cfg_attr(kani, kani::stub(std::fmt::format, crate::verif_common::stub_format))]
+#[cfg_attr(kani, kani::stub(std::io::Error::is_interrupted, crate::verif_common::stub_not_interrupted))]
+#[cfg_attr(kani, kani::stub(crate::decode::lzma::DecoderState::process_next_inner, crate::decode::lzma::verif_h::abs_symbol))]
+pub fn partial_p2_r3_l19_2_20() {
+    partial_step::<2, 3, 19, 2, 20>()
+}
+
+//@ harness props=C05,C15 tier=thorough unwind=22 unwindset=process_mode:7 mem_gb=4 timeout=900 native=no opt_covers=commit_and_carry,nothing_committed
+//@ bound: one process_stream call: carry 2 bytes, reader 8 bytes, symbol lengths 1,1,1(,20); contents/range/code symbolic; abstract symbols
+#[cfg_attr(kani, kani::proof)]
+#[cfg_attr(kani, kani::stub(std::fmt::format, crate::verif_common::stub_format))]
+#[cfg_attr(kani, kani::stub(std::io::Error::is_interrupted, crate::verif_common::stub_not_interrupted))]
+#[cfg_attr(kani, kani::stub(crate::decode::lzma::DecoderState::process_next_inner, crate::decode::lzma::verif_h::abs_symbol))]
+pub fn partial_p2_r8_l1_1_1() {
+    partial_step::<2, 8, 1, 1, 1>()
+}
+
+//@ harness props=C05,C15 tier=thorough unwind=22 unwindset=process_mode:7 mem_gb=4 timeout=900 native=no opt_covers=commit_and_carry,nothing_committed
+//@ bound: one process_stream call: carry 2 bytes, reader 8 bytes, symbol lengths 2,19,1(,20); contents/range/code symbolic; abstract symbols
+#[cfg_attr(kani, kani::proof)]
+#[cfg_attr(kani, kani::stub(std::fmt::format, crate::verif_common::stub_format))]
+#[cfg_attr(kani, kani::stub(std::io::Error::is_interrupted, crate::verif_common::stub_not_interrupted))]
+#[cfg_attr(kani, kani::stub(crate::decode::lzma::DecoderState::process_next_inner, crate::decode::lzma::verif_h::abs_symbol))]
+pub fn partial_p2_r8_l2_19_1() {
+    partial_step::<2, 8, 2, 19, 1>()
+}
+
+//@ harness props=C05,C15 tier=thorough unwind=22 unwindset=process_mode:7 mem_gb=4 timeout=900 native=no opt_covers=commit_and_carry,nothing_committed
+//@ bound: one process_stream call: carry 2 bytes, reader 8 bytes, symbol lengths 20,1,1(,20); contents/range/code symbolic; abstract symbols
+#[cfg_attr(kani, kani::proof)]
+#[cfg_attr(kani, kani::stub(std::fmt::format, crate::verif_common::stub_format))]
+#[cfg_attr(kani, kani::stub(std::io::Error::is_interrupted, crate::verif_common::stub_not_interrupted))]
+#[cfg_attr(kani, kani::stub(crate::decode::lzma::DecoderState::process_next_inner, crate::decode::lzma::verif_h::abs_symbol))]
+pub fn partial_p2_r8_l20_1_1() {
+    partial_step::<2, 8, 20, 1, 1>()
+}
+
+//@ harness props=C05,C15 tier=thorough unwind=22 unwindset=process_mode:7 mem_gb=4 timeout=900 native=no opt_covers=commit_and_carry,nothing_committed
+//@ bound: one process_stream call: carry 2 bytes, reader 8 bytes, symbol lengths 5,20,3(,20); contents/range/code symbolic; abstract symbols
+#[cfg_attr(kani, kani::proof)]
+#[cfg_attr(kani, kani::stub(std::fmt::format, crate::verif_common::stub_format))]
+#[cfg_attr(kani, kani::stub(std::io::Error::is_interrupted, crate::verif_common::stub_not_interrupted))]
+#[cfg_attr(kani, kani::stub(crate::decode::lzma::DecoderState::process_next_inner, crate::decode::lzma::verif_h::abs_symbol))]
+pub fn partial_p2_r8_l5_20_3() {
+    partial_step::<2, 8, 5, 20, 3>()
+}
+
+//@ harness props=C05,C15 tier=thorough unwind=22 unwindset=process_mode:7 mem_gb=4 timeout=900 native=no opt_covers=commit_and_carry,nothing_committed
+//@ bound: one process_stream call: carry 2 bytes, reader 8 bytes, symbol lengths 19,2,20(,20); contents/range/code symbolic; abstract symbols
+#[cfg_attr(kani, kani::proof)]
+#[cfg_attr(kani, kani::stub(std::fmt::format, crate::verif_common::stub_format))]
+#[cfg_attr(kani, kani::stub(std::io::Error::is_interrupted, crate::verif_common::stub_not_interrupted))]
+#[cfg_attr(kani, kani::stub(crate::decode::lzma::DecoderState::process_next_inner, crate::decode::lzma::verif_h::abs_symbol))]
+pub fn partial_p2_r8_l19_2_20() {
+    partial_step::<2, 8, 19, 2, 20>()
+}
+
+//@ harness props=C05,C15 tier=thorough unwind=22 unwindset=process_mode:7 mem_gb=4 timeout=900 native=no opt_covers=commit_and_carry,nothing_committed
+//@ bound: one process_stream call: carry 5 bytes, reader 0 bytes, symbol lengths 1,1,1(,20); contents/range/code symbolic; abstract symbols
+#[cfg_attr(kani, kani::proof)]
+#[cfg_attr(kani, kani::stub(std::fmt::format, crate::verif_common::stub_format))]
+#[cfg_attr(kani, kani::stub(std::io::Error::is_interrupted, crate::verif_common::stub_not_interrupted))]
+#[cfg_attr(kani, kani::stub(crate::decode::lzma::DecoderState::process_next_inner, crate::decode::lzma::verif_h::abs_symbol))]
+pub fn partial_p5_r0_l1_1_1() {
+    partial_step::<5, 0, 1, 1, 1>()
+}
+
+//@ harness props=C05,C15 tier=thorough unwind=22 unwindset=process_mode:7 mem_gb=4 timeout=900 native=no opt_covers=commit_and_carry,nothing_committed
+//@ bound: one process_stream call: carry 5 bytes, reader 0 bytes, symbol lengths 2,19,1(,20); contents/range/code symbolic; abstract symbols
+#[cfg_attr(kani, kani::proof)]
+#[cfg_attr(kani, kani::stub(std::fmt::format, crate::verif_common::stub_format))]
+#[cfg_attr(kani, kani::stub(std::io::Error::is_interrupted, crate::verif_common::stub_not_interrupted))]
+#[cfg_attr(kani, kani::stub(crate::decode::lzma::DecoderState::process_next_inner, crate::decode::lzma::verif_h::abs_symbol))]
+pub fn partial_p5_r0_l2_19_1() {
+    partial_step::<5, 0, 2, 19, 1>()
+}
+
+//@ harness props=C05,C15 tier=thorough unwind=22 unwindset=process_mode:7 mem_gb=4 timeout=900 native=no opt_covers=commit_and_carry,nothing_committed
+//@ bound: one process_stream call: carry 5 bytes, reader 0 bytes, symbol lengths 20,1,1(,20); contents/range/code symbolic; abstract symbols
+#[cfg_attr(kani, kani::proof)]
+#[cfg_attr(kani, kani::stub(std::fmt::format, crate::verif_common::stub_format))]
+#[cfg_attr(kani, kani::stub(std::io::Error::is_interrupted, crate::verif_common::stub_not_interrupted))]
+#[cfg_attr(kani, kani::stub(crate::decode::lzma::DecoderState::process_next_inner, crate::decode::lzma::verif_h::abs_symbol))]
+pub fn partial_p5_r0_l20_1_1() {
+    partial_step::<5, 0, 20, 1, 1>()
+}
+
+//@ harness props=C05,C15 tier=thorough unwind=22 unwindset=process_mode:7 mem_gb=4 timeout=900 native=no opt_covers=commit_and_carry,nothing_committed
+//@ bound: one process_stream call: carry 5 bytes, reader 0 bytes, symbol lengths 5,20,3(,20); contents/range/code symbolic; abstract symbols
+#[cfg_attr(kani, kani::proof)]
+#[cfg_attr(kani, kani::stub(std::fmt::format, crate::verif_common::stub_format))]
+#[cfg_attr(kani, kani::stub(std::io::Error::is_interrupted, crate::verif_common::stub_not_interrupted))]
+#[cfg_attr(kani, kani::stub(crate::decode::lzma::DecoderState::process_next_inner, crate::decode::lzma::verif_h::abs_symbol))]
+pub fn partial_p5_r0_l5_20_3() {
+    partial_step::<5, 0, 5, 20, 3>()
+}
+
+//@ harness props=C05,C15 tier=thorough unwind=22 unwindset=process_mode:7 mem_gb=4 timeout=900 native=no opt_covers=commit_and_carry,nothing_committed
+//@ bound: one process_stream call: carry 5 bytes, reader 0 bytes, symbol lengths 19,2,20(,20); contents/range/code symbolic; abstract symbols
+#[cfg_attr(kani, kani::proof)]
+#[cfg_attr(kani, kani::stub(std::fmt::format, crate::verif_common::stub_format))]
+#[cfg_attr(kani, kani::stub(std::io::Error::is_interrupted, crate::verif_common::stub_not_interrupted))]
+#[cfg_attr(kani, kani::stub(crate::decode::lzma::DecoderState::process_next_inner, crate::decode::lzma::verif_h::abs_symbol))]
+pub fn partial_p5_r0_l19_2_20() {
+    partial_step::<5, 0, 19, 2, 20>()
+}
+
+//@ harness props=C05,C15 tier=thorough unwind=22 unwindset=process_mode:7 mem_gb=4 timeout=900 native=no opt_covers=commit_and_carry,nothing_committed
+//@ bound: one process_stream call: carry 5 bytes, reader 1 bytes, symbol lengths 1,1,1(,20); contents/range/code symbolic; abstract symbols
+#[cfg_attr(kani, kani::proof)]
+#[cfg_attr(kani, kani::stub(std::fmt::format, crate::verif_common::stub_format))]
+#[cfg_attr(kani, kani::stub(std::io::Error::is_interrupted, crate::verif_common::stub_not_interrupted))]
+#[cfg_attr(kani, kani::stub(crate::decode::lzma::DecoderState::process_next_inner, crate::decode::lzma::verif_h::abs_symbol))]
+pub fn partial_p5_r1_l1_1_1() {
+    partial_step::<5, 1, 1, 1, 1>()
+}
+
+//@ harness props=C05,C15 tier=thorough unwind=22 unwindset=process_mode:7 mem_gb=4 timeout=900 native=no opt_covers=commit_and_carry,nothing_committed
+//@ bound: one process_stream call: carry 5 bytes, reader 1 bytes, symbol lengths 2,19,1(,20); contents/range/code symbolic; abstract symbols
+#[cfg_attr(kani, kani::proof)]
+#[cfg_attr(kani, kani::stub(std::fmt::format, crate::verif_common::stub_format))]
+#[cfg_attr(kani, kani::stub(std::io::Error::is_interrupted, crate::verif_common::stub_not_interrupted))]
+#[cfg_attr(kani, kani::stub(crate::decode::lzma::DecoderState::process_next_inner, crate::decode::lzma::verif_h::abs_symbol))]
+pub fn partial_p5_r1_l2_19_1() {
+    partial_step::<5, 1, 2, 19, 1>()
+}
+
+//@ harness props=C05,C15 tier=thorough unwind=22 unwindset=process_mode:7 mem_gb=4 timeout=900 native=no opt_covers=commit_and_carry,nothing_committed
+//@ bound: one process_stream call: carry 5 bytes, reader 1 bytes, symbol lengths 20,1,1(,20); contents/range/code symbolic; abstract symbols
+#[cfg_attr(kani, kani::proof)]
+#[cfg_attr(kani, kani::stub(std::fmt::format, crate::verif_common::stub_format))]
+#[cfg_attr(kani, kani::stub(std::io::Error::is_interrupted, crate::verif_common::stub_not_interrupted))]
+#[cfg_attr(kani, kani::stub(crate::decode::lzma::DecoderState::process_next_inner, crate::decode::lzma::verif_h::abs_symbol))]
+pub fn partial_p5_r1_l20_1_1() {
+    partial_step::<5, 1, 20, 1, 1>()
+}
+
+//@ harness props=C05,C15 tier=thorough unwind=22 unwindset=process_mode:7 mem_gb=4 timeout=900 native=no opt_covers=commit_and_carry,nothing_committed
+//@ bound: one process_stream call: carry 5 bytes, reader 1 bytes, symbol lengths 5,20,3(,20); contents/range/code symbolic; abstract symbols
+#[cfg_attr(kani, kani::proof)]
+#[cfg_attr(kani, kani::stub(std::fmt::format, crate::verif_common::stub_format))]
+#[cfg_attr(kani, kani::stub(std::io::Error::is_interrupted, crate::verif_common::stub_not_interrupted))]
+#[cfg_attr(kani, kani::stub(crate::decode::lzma::DecoderState::process_next_inner, crate::decode::lzma::verif_h::abs_symbol))]
+pub fn partial_p5_r1_l5_20_3() {
+    partial_step::<5, 1, 5, 20, 3>()
+}
+
+//@ harness props=C05,C15 tier=thorough unwind=22 unwindset=process_mode:7 mem_gb=4 timeout=900 native=no opt_covers=commit_and_carry,nothing_committed
+//@ bound: one process_stream call: carry 5 bytes, reader 1 bytes, symbol lengths 19,2,20(,20); contents/range/code symbolic; abstract symbols
+#[cfg_attr(kani, kani::proof)]
+#[cfg_attr(kani, kani::stub(std::fmt::format, crate::verif_common::stub_format))]
+#[cfg_attr(kani, kani::stub(std::io::Error::is_interrupted, crate::verif_common::stub_not_interrupted))]
+#[cfg_attr(kani, kani::stub(crate::decode::lzma::DecoderState::process_next_inner, crate::decode::lzma::verif_h::abs_symbol))]
+pub fn partial_p5_r1_l19_2_20() {
+    partial_step::<5, 1, 19, 2, 20>()
+}
+
+//@ harness props=C05,C15 tier=thorough unwind=22 unwindset=process_mode:7 mem_gb=4 timeout=900 native=no opt_covers=commit_and_carry,nothing_committed
+//@ bound: one process_stream call: carry 5 bytes, reader 3 bytes, symbol lengths 1,1,1(,20); contents/range/code symbolic; abstract symbols
+#[cfg_attr(kani, kani::proof)]
+#[cfg_attr(kani, kani::stub(std::fmt::format, crate::verif_common::stub_format))]
+#[cfg_attr(kani, kani::stub(std::io::Error::is_interrupted, crate::verif_common::stub_not_interrupted))]
+#[cfg_attr(kani, kani::stub(crate::decode::lzma::DecoderState::process_next_inner, crate::decode::lzma::verif_h::abs_symbol))]
+pub fn partial_p5_r3_l1_1_1() {
+    partial_step::<5, 3, 1, 1, 1>()
+}
+
+//@ harness props=C05,C15 tier=thorough unwind=22 unwindset=process_mode:7 mem_gb=4 timeout=900 native=no opt_covers=commit_and_carry,nothing_committed
+//@ bound: one process_stream call: carry 5 bytes, reader 3 bytes, symbol lengths 2,19,1(,20); contents/range/code symbolic; abstract symbols
+#[cfg_attr(kani, kani::proof)]
+#[cfg_attr(kani, kani::stub(std::fmt::format, crate::verif_common::stub_format))]
+#[cfg_attr(kani, kani::stub(std::io::Error::is_interrupted, crate::verif_common::stub_not_interrupted))]
+#[cfg_attr(kani, kani::stub(crate::decode::lzma::DecoderState::process_next_inner, crate::decode::lzma::verif_h::abs_symbol))]
+pub fn partial_p5_r3_l2_19_1() {
+    partial_step::<5, 3, 2, 19, 1>()
+}
+
+//@ harness props=C05,C15 tier=thorough unwind=22 unwindset=process_mode:7 mem_gb=4 timeout=900 native=no opt_covers=commit_and_carry,nothing_committed
+//@ bound: one process_stream call: carry 5 bytes, reader 3 bytes, symbol lengths 20,1,1(,20); contents/range/code symbolic; abstract symbols
+#[cfg_attr(kani, kani::proof)]
+#[cfg_attr(kani, kani::stub(std::fmt::format, crate::verif_common::stub_format))]
+#[cfg_attr(kani, kani::stub(std::io::Error::is_interrupted, crate::verif_common::stub_not_interrupted))]
+#[cfg_attr(kani, kani::stub(crate::decode::lzma::DecoderState::process_next_inner, crate::decode::lzma::verif_h::abs_symbol))]
+pub fn partial_p5_r3_l20_1_1() {
+    partial_step::<5, 3, 20, 1, 1>()
+}
+
+//@ harness props=C05,C15 tier=thorough unwind=22 unwindset=process_mode:7 mem_gb=4 timeout=900 native=no opt_covers=commit_and_carry,nothing_committed
+//@ bound: one process_stream call: carry 5 bytes, reader 3 bytes, symbol lengths 5,20,3(,20); contents/range/code symbolic; abstract symbols
+#[cfg_attr(kani, kani::proof)]
+#[cfg_attr(kani, kani::stub(std::fmt::format, crate::verif_common::stub_format))]
+#[cfg_attr(kani, kani::stub(std::io::Error::is_interrupted, crate::verif_common::stub_not_interrupted))]
+#[cfg_attr(kani, kani::stub(crate::decode::lzma::DecoderState::process_next_inner, crate::decode::lzma::verif_h::abs_symbol))]
+pub fn partial_p5_r3_l5_20_3() {
+    partial_step::<5, 3, 5, 20, 3>()
+}
+
+//@ harness props=C05,C15 tier=thorough unwind=22 unwindset=process_mode:7 mem_gb=4 timeout=900 native=no opt_covers=commit_and_carry,nothing_committed
+//@ bound: one process_stream call: carry 5 bytes, reader 3 bytes, symbol lengths 19,2,20(,20); contents/range/code symbolic; abstract symbols
+#[cfg_attr(kani, kani::proof)]
+#[cfg_attr(kani, kani::stub(std::fmt::format, crate::verif_common::stub_format))]
+#[cfg_attr(kani, kani::stub(std::io::Error::is_interrupted, crate::verif_common::stub_not_interrupted))]
+#[cfg_attr(kani, kani::stub(crate::decode::lzma::DecoderState::process_next_inner, crate::decode::lzma::verif_h::abs_symbol))]
+pub fn partial_p5_r3_l19_2_20() {
+    partial_step::<5, 3, 19, 2, 20>()
+}
+
+//@ harness props=C05,C15 tier=thorough unwind=22 unwindset=process_mode:7 mem_gb=4 timeout=900 native=no opt_covers=commit_and_carry,nothing_committed
+//@ bound: one process_stream call: carry 5 bytes, reader 8 bytes, symbol lengths 1,1,1(,20); contents/range/code symbolic; abstract symbols
+#[cfg_attr(kani, kani::proof)]
+#[cfg_attr(kani, kani::stub(std::fmt::format, crate::verif_common::stub_format))]
+#[cfg_attr(kani, kani::stub(std::io::Error::is_interrupted, crate::verif_common::stub_not_interrupted))]
+#[cfg_attr(kani, kani::stub(crate::decode::lzma::DecoderState::process_next_inner, crate::decode::lzma::verif_h::abs_symbol))]
+pub fn partial_p5_r8_l1_1_1() {
+    partial_step::<5, 8, 1, 1, 1>()
+}
+
+//@ harness props=C05,C15 tier=thorough unwind=22 unwindset=process_mode:7 mem_gb=4 timeout=900 native=no opt_covers=commit_and_carry,nothing_committed
+//@ bound: one process_stream call: carry 5 bytes, reader 8 bytes, symbol lengths 2,19,1(,20); contents/range/code symbolic; abstract symbols
+#[cfg_attr(kani, kani::proof)]
+#[cfg_attr(kani, kani::stub(std::fmt::format, crate::verif_common::stub_format))]
+#[cfg_attr(kani, kani::stub(std::io::Error::is_interrupted, crate::verif_common::stub_not_interrupted))]
+#[cfg_attr(kani, kani::stub(crate::decode::lzma::DecoderState::process_next_inner, crate::decode::lzma::verif_h::abs_symbol))]
+pub fn partial_p5_r8_l2_19_1() {
+    partial_step::<5, 8, 2, 19, 1>()
+}
+
+//@ harness props=C05,C15 tier=thorough unwind=22 unwindset=process_mode:7 mem_gb=4 timeout=900 native=no opt_covers=commit_and_carry,nothing_committed
+//@ bound: one process_stream call: carry 5 bytes, reader 8 bytes, symbol lengths 20,1,1(,20); contents/range/code symbolic; abstract symbols
+#[cfg_attr(kani, kani::proof)]
+#[cfg_attr(kani, kani::stub(std::fmt::format, crate::verif_common::stub_format))]
+#[cfg_attr(kani, kani::stub(std::io::Error::is_interrupted, crate::verif_common::stub_not_interrupted))]
+#[cfg_attr(kani, kani::stub(crate::decode::lzma::DecoderState::process_next_inner, crate::decode::lzma::verif_h::abs_symbol))]
+pub fn partial_p5_r8_l20_1_1() {
+    partial_step::<5, 8, 20, 1, 1>()
+}
+
+//@ harness props=C05,C15 tier=thorough unwind=22 unwindset=process_mode:7 mem_gb=4 timeout=900 native=no opt_covers=commit_and_carry,nothing_committed
+//@ bound: one process_stream call: carry 5 bytes, reader 8 bytes, symbol lengths 5,20,3(,20); contents/range/code symbolic; abstract symbols
+#[cfg_attr(kani, kani::proof)]
+#[cfg_attr(kani, kani::stub(std::fmt::format, crate::verif_common::stub_format))]
+#[cfg_attr(kani, kani::stub(std::io::Error::is_interrupted, crate::verif_common::stub_not_interrupted))]
+#[cfg_attr(kani, kani::stub(crate::decode::lzma::DecoderState::process_next_inner, crate::decode::lzma::verif_h::abs_symbol))]
+pub fn partial_p5_r8_l5_20_3() {
+    partial_step::<5, 8, 5, 20, 3>()
+}
+
+//@ harness props=C05,C15 tier=thorough unwind=22 unwindset=process_mode:7 mem_gb=4 timeout=900 native=no opt_covers=commit_and_carry,nothing_committed
+//@ bound: one process_stream call: carry 5 bytes, reader 8 bytes, symbol lengths 19,2,20(,20); contents/range/code symbolic; abstract symbols
+#[cfg_attr(kani, kani::proof)]
+#[cfg_attr(kani, kani::stub(std::fmt::format, crate::verif_common::stub_format))]
+#[cfg_attr(kani, kani::stub(std::io::Error::is_interrupted, crate::verif_common::stub_not_interrupted))]
+#[cfg_attr(kani, kani::stub(crate::decode::lzma::DecoderState::process_next_inner, crate::decode::lzma::verif_h::abs_symbol))]
+pub fn partial_p5_r8_l19_2_20() {
+    partial_step::<5, 8, 19, 2, 20>()
+}
+
+//@ harness props=C05,C15 tier=thorough unwind=22 unwindset=process_mode:7 mem_gb=4 timeout=900 native=no opt_covers=commit_and_carry,nothing_committed
+//@ bound: one process_stream call: carry 10 bytes, reader 0 bytes, symbol lengths 1,1,1(,20); contents/range/code symbolic; abstract symbols
+#[cfg_attr(kani, kani::proof)]
+#[cfg_attr(kani, kani::stub(std::fmt::format, crate::verif_common::stub_format))]
+#[cfg_attr(kani, kani::stub(std::io::Error::is_interrupted, crate::verif_common::stub_not_interrupted))]
+#[cfg_attr(kani, kani::stub(crate::decode::lzma::DecoderState::process_next_inner, crate::decode::lzma::verif_h::abs_symbol))]
+pub fn partial_p10_r0_l1_1_1() {
+    partial_step::<10, 0, 1, 1, 1>()
+}
+
+//@ harness props=C05,C15 tier=thorough unwind=22 unwindset=process_mode:7 mem_gb=4 timeout=900 native=no opt_covers=commit_and_carry,nothing_committed
+//@ bound: one process_stream call: carry 10 bytes, reader 0 bytes, symbol lengths 2,19,1(,20); contents/range/code symbolic; abstract symbols
+#[cfg_attr(kani, kani::proof)]
+#[cfg_attr(kani, kani::stub(std::fmt::format, crate::verif_common::stub_format))]
+#[cfg_attr(kani, kani::stub(std::io::Error::is_interrupted, crate::verif_common::stub_not_interrupted))]
+#[cfg_attr(kani, kani::stub(crate::decode::lzma::DecoderState::process_next_inner, crate::decode::lzma::verif_h::abs_symbol))]
+pub fn partial_p10_r0_l2_19_1() {
+    partial_step::<10, 0, 2, 19, 1>()
+}
+
+//@ harness props=C05,C15 tier=thorough unwind=22 unwindset=process_mode:7 mem_gb=4 timeout=900 native=no opt_covers=commit_and_carry,nothing_committed
+//@ bound: one process_stream call: carry 10 bytes, reader 0 bytes, symbol lengths 20,1,1(,20); contents/range/code symbolic; abstract symbols
+#[cfg_attr(kani, kani::proof)]
+#[cfg_attr(kani, kani::stub(std::fmt::format, crate::verif_common::stub_format))]
+#[cfg_attr(kani, kani::stub(std::io::Error::is_interrupted, crate::verif_common::stub_not_interrupted))]
+#[cfg_attr(kani, kani::stub(crate::decode::lzma::DecoderState::process_next_inner, crate::decode::lzma::verif_h::abs_symbol))]
+pub fn partial_p10_r0_l20_1_1() {
+    partial_step::<10, 0, 20, 1, 1>()
+}
+
+//@ harness props=C05,C15 tier=thorough unwind=22 unwindset=process_mode:7 mem_gb=4 timeout=900 native=no opt_covers=commit_and_carry,nothing_committed
+//@ bound: one process_stream call: carry 10 bytes, reader 0 bytes, symbol lengths 5,20,3(,20); contents/range/code symbolic; abstract symbols
+#[cfg_attr(kani, kani::proof)]
+#[cfg_attr(kani, kani::stub(std::fmt::format, crate::verif_common::stub_format))]
+#[cfg_attr(kani, kani::stub(std::io::Error::is_interrupted, crate::verif_common::stub_not_interrupted))]
+#[cfg_attr(kani, kani::stub(crate::decode::lzma::DecoderState::process_next_inner, crate::decode::lzma::verif_h::abs_symbol))]
+pub fn partial_p10_r0_l5_20_3() {
+    partial_step::<10, 0, 5, 20, 3>()
+}
+
+//@ harness props=C05,C15 tier=thorough unwind=22 unwindset=process_mode:7 mem_gb=4 timeout=900 native=no opt_covers=commit_and_carry,nothing_committed
+//@ bound: one process_stream call: carry 10 bytes, reader 0 bytes, symbol lengths 19,2,20(,20); contents/range/code symbolic; abstract symbols
+#[cfg_attr(kani, kani::proof)]
+#[cfg_attr(kani, kani::stub(std::fmt::format, crate::verif_common::stub_format))]
+#[cfg_attr(kani, kani::stub(std::io::Error::is_interrupted, crate::verif_common::stub_not_interrupted))]
+#[cfg_attr(kani, kani::stub(crate::decode::lzma::DecoderState::process_next_inner, crate::decode::lzma::verif_h::abs_symbol))]
+pub fn partial_p10_r0_l19_2_20() {
+    partial_step::<10, 0, 19, 2, 20>()
+}
+
+//@ harness props=C05,C15 tier=thorough unwind=22 unwindset=process_mode:7 mem_gb=4 timeout=900 native=no opt_covers=commit_and_carry,nothing_committed
+//@ bound: one process_stream call: carry 10 bytes, reader 1 bytes, symbol lengths 1,1,1(,20); contents/range/code symbolic; abstract symbols
+#[cfg_attr(kani, kani::proof)]
+#[cfg_attr(kani, kani::stub(std::fmt::format, crate::verif_common::stub_format))]
+#[cfg_attr(kani, kani::stub(std::io::Error::is_interrupted, crate::verif_common::stub_not_interrupted))]
+#[cfg_attr(kani, kani::stub(crate::decode::lzma::DecoderState::process_next_inner, crate::decode::lzma::verif_h::abs_symbol))]
+pub fn partial_p10_r1_l1_1_1() {
+    partial_step::<10, 1, 1, 1, 1>()
+}
+
+//@ harness props=C05,C15 tier=thorough unwind=22 unwindset=process_mode:7 mem_gb=4 timeout=900 native=no opt_covers=commit_and_carry,nothing_committed
+//@ bound: one process_stream call: carry 10 bytes, reader 1 bytes, symbol lengths 2,19,1(,20); contents/range/code symbolic; abstract symbols
+#[cfg_attr(kani, kani::proof)]
+#[cfg_attr(kani, kani::stub(std::fmt::format, crate::verif_common::stub_format))]
+#[cfg_attr(kani, kani::stub(std::io::Error::is_interrupted, crate::verif_common::stub_not_interrupted))]
+#[cfg_attr(kani, kani::stub(crate::decode::lzma::DecoderState::process_next_inner, crate::decode::lzma::verif_h::abs_symbol))]
+pub fn partial_p10_r1_l2_19_1() {
+    partial_step::<10, 1, 2, 19, 1>()
+}
+
+//@ harness props=C05,C15 tier=thorough unwind=22 unwindset=process_mode:7 mem_gb=4 timeout=900 native=no opt_covers=commit_and_carry,nothing_committed
+//@ bound: one process_stream call: carry 10 bytes, reader 1 bytes, symbol lengths 20,1,1(,20); contents/range/code symbolic; abstract symbols
+#[cfg_attr(kani, kani::proof)]
+#[cfg_attr(kani, kani::stub(std::fmt::format, crate::verif_common::stub_format))]
+#[cfg_attr(kani, kani::stub(std::io::Error::is_interrupted, crate::verif_common::stub_not_interrupted))]
+#[cfg_attr(kani, kani::stub(crate::decode::lzma::DecoderState::process_next_inner, crate::decode::lzma::verif_h::abs_symbol))]
+pub fn partial_p10_r1_l20_1_1() {
+    partial_step::<10, 1, 20, 1, 1>()
+}
+
+//@ harness props=C05,C15 tier=thorough unwind=22 unwindset=process_mode:7 mem_gb=4 timeout=900 native=no opt_covers=commit_and_carry,nothing_committed
+//@ bound: one process_stream call: carry 10 bytes, reader 1 bytes, symbol lengths 5,20,3(,20); contents/range/code symbolic; abstract symbols
+#[cfg_attr(kani, kani::proof)]
+#[cfg_attr(kani, kani::stub(std::fmt::format, crate::verif_common::stub_format))]
+#[cfg_attr(kani, kani::stub(std::io::Error::is_interrupted, crate::verif_common::stub_not_interrupted))]
+#[cfg_attr(kani, kani::stub(crate::decode::lzma::DecoderState::process_next_inner, crate::decode::lzma::verif_h::abs_symbol))]
+pub fn partial_p10_r1_l5_20_3() {
+    partial_step::<10, 1, 5, 20, 3>()
+}
+
+//@ harness props=C05,C15 tier=thorough unwind=22 unwindset=process_mode:7 mem_gb=4 timeout=900 native=no opt_covers=commit_and_carry,nothing_committed
+//@ bound: one process_stream call: carry 10 bytes, reader 1 bytes, symbol lengths 19,2,20(,20); contents/range/code symbolic; abstract symbols
+#[cfg_attr(kani, kani::proof)]
+#[cfg_attr(kani, kani::stub(std::fmt::format, crate::verif_common::stub_format))]
+#[cfg_attr(kani, kani::stub(std::io::Error::is_interrupted, crate::verif_common::stub_not_interrupted))]
+#[cfg_attr(kani, kani::stub(crate::decode::lzma::DecoderState::process_next_inner, crate::decode::lzma::verif_h::abs_symbol))]
+pub fn partial_p10_r1_l19_2_20() {
+    partial_step::<10, 1, 19, 2, 20>()
+}
+
+//@ harness props=C05,C15 tier=thorough unwind=22 unwindset=process_mode:7 mem_gb=4 timeout=900 native=no opt_covers=commit_and_carry,nothing_committed
+//@ bound: one process_stream call: carry 10 bytes, reader 3 bytes, symbol lengths 1,1,1(,20); contents/range/code symbolic; abstract symbols
+#[cfg_attr(kani, kani::proof)]
+#[cfg_attr(kani, kani::stub(std::fmt::format, crate::verif_common::stub_format))]
+#[cfg_attr(kani, kani::stub(std::io::Error::is_interrupted, crate::verif_common::stub_not_interrupted))]
+#[cfg_attr(kani, kani::stub(crate::decode::lzma::DecoderState::process_next_inner, crate::decode::lzma::verif_h::abs_symbol))]
+pub fn partial_p10_r3_l1_1_1() {
+    partial_step::<10, 3, 1, 1, 1>()
+}
+
+//@ harness props=C05,C15 tier=thorough unwind=22 unwindset=process_mode:7 mem_gb=4 timeout=900 native=no opt_covers=commit_and_carry,nothing_committed
+//@ bound: one process_stream call: carry 10 bytes, reader 3 bytes, symbol lengths 2,19,1(,20); contents/range/code symbolic; abstract symbols
+#[cfg_attr(kani, kani::proof)]
+#[cfg_attr(kani, kani::stub(std::fmt::format, crate::verif_common::stub_format))]
+#[cfg_attr(kani, kani::stub(std::io::Error::is_interrupted, crate::verif_common::stub_not_interrupted))]
+#[cfg_attr(kani, kani::stub(crate::decode::lzma::DecoderState::process_next_inner, crate::decode::lzma::verif_h::abs_symbol))]
+pub fn partial_p10_r3_l2_19_1() {
+    partial_step::<10, 3, 2, 19, 1>()
+}
+
+//@ harness props=C05,C15 tier=thorough unwind=22 unwindset=process_mode:7 mem_gb=4 timeout=900 native=no opt_covers=commit_and_carry,nothing_committed
+//@ bound: one process_stream call: carry 10 bytes, reader 3 bytes, symbol lengths 20,1,1(,20); contents/range/code symbolic; abstract symbols
+#[cfg_attr(kani, kani::proof)]
+#[cfg_attr(kani, kani::stub(std::fmt::format, crate::verif_common::stub_format))]
+#[cfg_attr(kani, kani::stub(std::io::Error::is_interrupted, crate::verif_common::stub_not_interrupted))]
+#[cfg_attr(kani, kani::stub(crate::decode::lzma::DecoderState::process_next_inner, crate::decode::lzma::verif_h::abs_symbol))]
+pub fn partial_p10_r3_l20_1_1() {
+    partial_step::<10, 3, 20, 1, 1>()
+}
+
+//@ harness props=C05,C15 tier=thorough unwind=22 unwindset=process_mode:7 mem_gb=4 timeout=900 native=no opt_covers=commit_and_carry,nothing_committed
+//@ bound: one process_stream call: carry 10 bytes, reader 3 bytes, symbol lengths 5,20,3(,20); contents/range/code symbolic; abstract symbols
+#[cfg_attr(kani, kani::proof)]
+#[cfg_attr(kani, kani::stub(std::fmt::format, crate::verif_common::stub_format))]
+#[cfg_attr(kani, kani::stub(std::io::Error::is_interrupted, crate::verif_common::stub_not_interrupted))]
+#[cfg_attr(kani, kani::stub(crate::decode::lzma::DecoderState::process_next_inner, crate::decode::lzma::verif_h::abs_symbol))]
+pub fn partial_p10_r3_l5_20_3() {
+    partial_step::<10, 3, 5, 20, 3>()
+}
+
+//@ harness props=C05,C15 tier=thorough unwind=22 unwindset=process_mode:7 mem_gb=4 timeout=900 native=no opt_covers=commit_and_carry,nothing_committed
+//@ bound: one process_stream call: carry 10 bytes, reader 3 bytes, symbol lengths 19,2,20(,20); contents/range/code symbolic; abstract symbols
+#[cfg_attr(kani, kani::proof)]
+#[cfg_attr(kani, kani::stub(std::fmt::format, crate::verif_common::stub_format))]
+#[cfg_attr(kani, kani::stub(std::io::Error::is_interrupted, crate::verif_common::stub_not_interrupted))]
+#[cfg_attr(kani, kani::stub(crate::decode::lzma::DecoderState::process_next_inner, crate::decode::lzma::verif_h::abs_symbol))]
+pub fn partial_p10_r3_l19_2_20() {
+    partial_step::<10, 3, 19, 2, 20>()
+}
+
+//@ harness props=C05,C15 tier=thorough unwind=22 unwindset=process_mode:7 mem_gb=4 timeout=900 native=no opt_covers=commit_and_carry,nothing_committed
+//@ bound: one process_stream call: carry 10 bytes, reader 8 bytes, symbol lengths 1,1,1(,20); contents/range/code symbolic; abstract symbols
+#[cfg_attr(kani, kani::proof)]
+#[cfg_attr(kani, kani::stub(std::fmt::format, crate::verif_common::stub_format))]
+#[cfg_attr(kani, kani::stub(std::io::Error::is_interrupted, crate::verif_common::stub_not_interrupted))]
+#[cfg_attr(kani, kani::stub(crate::decode::lzma::DecoderState::process_next_inner, crate::decode::lzma::verif_h::abs_symbol))]
+pub fn partial_p10_r8_l1_1_1() {
+    partial_step::<10, 8, 1, 1, 1>()
+}
+
+//@ harness props=C05,C15 tier=thorough unwind=22 unwindset=process_mode:7 mem_gb=4 timeout=900 native=no opt_covers=commit_and_carry,nothing_committed
+//@ bound: one process_stream call: carry 10 bytes, reader 8 bytes, symbol lengths 2,19,1(,20); contents/range/code symbolic; abstract symbols
+#[cfg_attr(kani, kani::proof)]
+#[cfg_attr(kani, kani::stub(std::fmt::format, crate::verif_common::stub_format))]
+#[cfg_attr(kani, kani::stub(std::io::Error::is_interrupted, crate::verif_common::stub_not_interrupted))]
+#[cfg_attr(kani, kani::stub(crate::decode::lzma::DecoderState::process_next_inner, crate::decode::lzma::verif_h::abs_symbol))]
+pub fn partial_p10_r8_l2_19_1() {
+    partial_step::<10, 8, 2, 19, 1>()
+}
+
+//@ harness props=C05,C15 tier=thorough unwind=22 unwindset=process_mode:7 mem_gb=4 timeout=900 native=no opt_covers=commit_and_carry,nothing_committed
+//@ bound: one process_stream call: carry 10 bytes, reader 8 bytes, symbol lengths 5,20,3(,20); contents/range/code symbolic; abstract symbols
+#[cfg_attr(kani, kani::proof)]
+#[cfg_attr(kani, kani::stub(std::fmt::format, crate::verif_common::stub_format))]
+#[cfg_attr(kani, kani::stub(std::io::Error::is_interrupted, crate::verif_common::stub_not_interrupted))]
+#[cfg_attr(kani, kani::stub(crate::decode::lzma::DecoderState::process_next_inner, crate::decode::lzma::verif_h::abs_symbol))]
+pub fn partial_p10_r8_l5_20_3() {
+    partial_step::<10, 8, 5, 20, 3>()
+}
+
+//@ harness props=C05,C15 tier=thorough unwind=22 unwindset=process_mode:7 mem_gb=4 timeout=900 native=no opt_covers=commit_and_carry,nothing_committed
+//@ bound: one process_stream call: carry 10 bytes, reader 8 bytes, symbol lengths 19,2,20(,20); contents/range/code symbolic; abstract symbols
+#[cfg_attr(kani, kani::proof)]
+#[cfg_attr(kani, kani::stub(std::fmt::format, crate::verif_common::stub_format))]
+#[cfg_attr(kani, kani::stub(std::io::Error::is_interrupted, crate::verif_common::stub_not_interrupted))]
+#[cfg_attr(kani, kani::stub(crate::decode::lzma::DecoderState::process_next_inner, crate::decode::lzma::verif_h::abs_symbol))]
+pub fn partial_p10_r8_l19_2_20() {
+    partial_step::<10, 8, 19, 2, 20>()
+}
+
+//@ harness props=C05,C15 tier=thorough unwind=22 unwindset=process_mode:7 mem_gb=4 timeout=900 native=no opt_covers=commit_and_carry,nothing_committed
+//@ bound: one process_stream call: carry 18 bytes, reader 0 bytes, symbol lengths 1,1,1(,20); contents/range/code symbolic; abstract symbols
+#[cfg_attr(kani, kani::proof)]
+#[cfg_attr(kani, kani::stub(std::fmt::format, crate::verif_common::stub_format))]
+#[cfg_attr(kani, kani::stub(std::io::Error::is_interrupted, crate::verif_common::stub_not_interrupted))]
+#[cfg_attr(kani, kani::stub(crate::decode::lzma::DecoderState::process_next_inner, crate::decode::lzma::verif_h::abs_symbol))]
+pub fn partial_p18_r0_l1_1_1() {
+    partial_step::<18, 0, 1, 1, 1>()
+}
+
+//@ harness props=C05,C15 tier=thorough unwind=22 unwindset=process_mode:7 mem_gb=4 timeout=900 native=no opt_covers=commit_and_carry,nothing_committed
+//@ bound: one process_stream call: carry 18 bytes, reader 0 bytes, symbol lengths 2,19,1(,20); contents/range/code symbolic; abstract symbols
+#[cfg_attr(kani, kani::proof)]
+#[cfg_attr(kani, kani::stub(std::fmt::format, crate::verif_common::stub_format))]
+#[cfg_attr(kani, kani::stub(std::io::Error::is_interrupted, crate::verif_common::stub_not_interrupted))]
+#[cfg_attr(kani, kani::stub(crate::decode::lzma::DecoderState::process_next_inner, crate::decode::lzma::verif_h::abs_symbol))]
+pub fn partial_p18_r0_l2_19_1() {
+    partial_step::<18, 0, 2, 19, 1>()
+}
+
+//@ harness props=C05,C15 tier=thorough unwind=22 unwindset=process_mode:7 mem_gb=4 timeout=900 native=no opt_covers=commit_and_carry,nothing_committed
+//@ bound: one process_stream call: carry 18 bytes, reader 0 bytes, symbol lengths 20,1,1(,20); contents/range/code symbolic; abstract symbols
+#[cfg_attr(kani, kani::proof)]
+#[cfg_attr(kani, kani::stub(std::fmt::format, crate::verif_common::stub_format))]
+#[cfg_attr(kani, kani::stub(std::io::Error::is_interrupted, crate::verif_common::stub_not_interrupted))]
+#[cfg_attr(kani, kani::stub(crate::decode::lzma::DecoderState::process_next_inner, crate::decode::lzma::verif_h::abs_symbol))]
+pub fn partial_p18_r0_l20_1_1() {
+    partial_step::<18, 0, 20, 1, 1>()
+}
+
+//@ harness props=C05,C15 tier=thorough unwind=22 unwindset=process_mode:7 mem_gb=4 timeout=900 native=no opt_covers=commit_and_carry,nothing_committed
+//@ bound: one process_stream call: carry 18 bytes, reader 0 bytes, symbol lengths 5,20,3(,20); contents/range/code symbolic; abstract symbols
+#[cfg_attr(kani, kani::proof)]
+#[cfg_attr(kani, kani::stub(std::fmt::format, crate::verif_common::stub_format))]
+#[cfg_attr(kani, kani::stub(std::io::Error::is_interrupted, crate::verif_common::stub_not_interrupted))]
+#[cfg_attr(kani, kani::stub(crate::decode::lzma::DecoderState::process_next_inner, crate::decode::lzma::verif_h::abs_symbol))]
+pub fn partial_p18_r0_l5_20_3() {
+    partial_step::<18, 0, 5, 20, 3>()
+}
+
+//@ harness props=C05,C15 tier=thorough unwind=22 unwindset=process_mode:7 mem_gb=4 timeout=900 native=no opt_covers=commit_and_carry,nothing_committed
+//@ bound: one process_stream call: carry 18 bytes, reader 0 bytes, symbol lengths 19,2,20(,20); contents/range/code symbolic; abstract symbols
+#[cfg_attr(kani, kani::proof)]
+#[cfg_attr(kani, kani::stub(std::fmt::format, crate::verif_common::stub_format))]
+#[cfg_attr(kani, kani::stub(std::io::Error::is_interrupted, crate::verif_common::stub_not_interrupted))]
+#[cfg_attr(kani, kani::stub(crate::decode::lzma::DecoderState::process_next_inner, crate::decode::lzma::verif_h::abs_symbol))]
+pub fn partial_p18_r0_l19_2_20() {
+    partial_step::<18, 0, 19, 2, 20>()
+}
+
+//@ harness props=C05,C15 tier=thorough unwind=22 unwindset=process_mode:7 mem_gb=4 timeout=900 native=no opt_covers=commit_and_carry,nothing_committed
+//@ bound: one process_stream call: carry 18 bytes, reader 1 bytes, symbol lengths 1,1,1(,20); contents/range/code symbolic; abstract symbols
+#[cfg_attr(kani, kani::proof)]
+#[cfg_attr(kani, kani::stub(std::fmt::format, crate::verif_common::stub_format))]
+#[cfg_attr(kani, kani::stub(std::io::Error::is_interrupted, crate::verif_common::stub_not_interrupted))]
+#[cfg_attr(kani, kani::stub(crate::decode::lzma::DecoderState::process_next_inner, crate::decode::lzma::verif_h::abs_symbol))]
+pub fn partial_p18_r1_l1_1_1() {
+    partial_step::<18, 1, 1, 1, 1>()
+}
+
+//@ harness props=C05,C15 tier=thorough unwind=22 unwindset=process_mode:7 mem_gb=4 timeout=900 native=no opt_covers=commit_and_carry,nothing_committed
+//@ bound: one process_stream call: carry 18 bytes, reader 1 bytes, symbol lengths 2,19,1(,20); contents/range/code symbolic; abstract symbols
+#[cfg_attr(kani, kani::proof)]
+#[cfg_attr(kani, kani::stub(std::fmt::format, crate::verif_common::stub_format))]
+#[cfg_attr(kani, kani::stub(std::io::Error::is_interrupted, crate::verif_common::stub_not_interrupted))]
+#[cfg_attr(kani, kani::stub(crate::decode::lzma::DecoderState::process_next_inner, crate::decode::lzma::verif_h::abs_symbol))]
+pub fn partial_p18_r1_l2_19_1() {
+    partial_step::<18, 1, 2, 19, 1>()
+}
+
+//@ harness props=C05,C15 tier=thorough unwind=22 unwindset=process_mode:7 mem_gb=4 timeout=900 native=no opt_covers=commit_and_carry,nothing_committed
+//@ bound: one process_stream call: carry 18 bytes, reader 1 bytes, symbol lengths 20,1,1(,20); contents/range/code symbolic; abstract symbols
+#[cfg_attr(kani, kani::proof)]
+#[cfg_attr(kani, kani::stub(std::fmt::format, crate::verif_common::stub_format))]
+#[cfg_attr(kani, kani::stub(std::io::Error::is_interrupted, crate::verif_common::stub_not_interrupted))]
+#[cfg_attr(kani, kani::stub(crate::decode::lzma::DecoderState::process_next_inner, crate::decode::lzma::verif_h::abs_symbol))]
+pub fn partial_p18_r1_l20_1_1() {
+    partial_step::<18, 1, 20, 1, 1>()
+}
+
+//@ harness props=C05,C15 tier=thorough unwind=22 unwindset=process_mode:7 mem_gb=4 timeout=900 native=no opt_covers=commit_and_carry,nothing_committed
+//@ bound: one process_stream call: carry 18 bytes, reader 1 bytes, symbol lengths 5,20,3(,20); contents/range/code symbolic; abstract symbols
+#[cfg_attr(kani, kani::proof)]
+#[cfg_attr(kani, kani::stub(std::fmt::format, crate::verif_common::stub_format))]
+#[cfg_attr(kani, kani::stub(std::io::Error::is_interrupted, crate::verif_common::stub_not_interrupted))]
+#[cfg_attr(kani, kani::stub(crate::decode::lzma::DecoderState::process_next_inner, crate::decode::lzma::verif_h::abs_symbol))]
+pub fn partial_p18_r1_l5_20_3() {
+    partial_step::<18, 1, 5, 20, 3>()
+}
+
+//@ harness props=C05,C15 tier=thorough unwind=22 unwindset=process_mode:7 mem_gb=4 timeout=900 native=no opt_covers=commit_and_carry,nothing_committed
+//@ bound: one process_stream call: carry 18 bytes, reader 1 bytes, symbol lengths 19,2,20(,20); contents/range/code symbolic; abstract symbols
+#[cfg_attr(kani, kani::proof)]
+#[cfg_attr(kani, kani::stub(std::fmt::format, crate::verif_common::stub_format))]
+#[cfg_attr(kani, kani::stub(std::io::Error::is_interrupted, crate::verif_common::stub_not_interrupted))]
+#[cfg_attr(kani, kani::stub(crate::decode::lzma::DecoderState::process_next_inner, crate::decode::lzma::verif_h::abs_symbol))]
+pub fn partial_p18_r1_l19_2_20() {
+    partial_step::<18, 1, 19, 2, 20>()
+}
+
+//@ harness props=C05,C15 tier=thorough unwind=22 unwindset=process_mode:7 mem_gb=4 timeout=900 native=no opt_covers=commit_and_carry,nothing_committed
+//@ bound: one process_stream call: carry 18 bytes, reader 3 bytes, symbol lengths 1,1,1(,20); contents/range/code symbolic; abstract symbols
+#[cfg_attr(kani, kani::proof)]
+#[cfg_attr(kani, kani::stub(std::fmt::format, crate::verif_common::stub_format))]
+#[cfg_attr(kani, kani::stub(std::io::Error::is_interrupted, crate::verif_common::stub_not_interrupted))]
+#[cfg_attr(kani, kani::stub(crate::decode::lzma::DecoderState::process_next_inner, crate::decode::lzma::verif_h::abs_symbol))]
+pub fn partial_p18_r3_l1_1_1() {
+    partial_step::<18, 3, 1, 1, 1>()
+}
+
+//@ harness props=C05,C15 tier=thorough unwind=22 unwindset=process_mode:7 mem_gb=4 timeout=900 native=no opt_covers=commit_and_carry,nothing_committed
+//@ bound: one process_stream call: carry 18 bytes, reader 3 bytes, symbol lengths 2,19,1(,20); contents/range/code symbolic; abstract symbols
+#[cfg_attr(kani, kani::proof)]
+#[cfg_attr(kani, kani::stub(std::fmt::format, crate::verif_common::stub_format))]
+#[cfg_attr(kani, kani::stub(std::io::Error::is_interrupted, crate::verif_common::stub_not_interrupted))]
+#[cfg_attr(kani, kani::stub(crate::decode::lzma::DecoderState::process_next_inner, crate::decode::lzma::verif_h::abs_symbol))]
+pub fn partial_p18_r3_l2_19_1() {
+    partial_step::<18, 3, 2, 19, 1>()
+}
+
+//@ harness props=C05,C15 tier=thorough unwind=22 unwindset=process_mode:7 mem_gb=4 timeout=900 native=no opt_covers=commit_and_carry,nothing_committed
+//@ bound: one process_stream call: carry 18 bytes, reader 3 bytes, symbol lengths 20,1,1(,20); contents/range/code symbolic; abstract symbols
+#[cfg_attr(kani, kani::proof)]
+#[cfg_attr(kani, kani::stub(std::fmt::format, crate::verif_common::stub_format))]
+#[cfg_attr(kani, kani::stub(std::io::Error::is_interrupted, crate::verif_common::stub_not_interrupted))]
+#[cfg_attr(kani, kani::stub(crate::decode::lzma::DecoderState::process_next_inner, crate::decode::lzma::verif_h::abs_symbol))]
+pub fn partial_p18_r3_l20_1_1() {
+    partial_step::<18, 3, 20, 1, 1>()
+}
+
+//@ harness props=C05,C15 tier=thorough unwind=22 unwindset=process_mode:7 mem_gb=4 timeout=900 native=no opt_covers=commit_and_carry,nothing_committed
+//@ bound: one process_stream call: carry 18 bytes, reader 3 bytes, symbol lengths 5,20,3(,20); contents/range/code symbolic; abstract symbols
+#[cfg_attr(kani, kani::proof)]
+#[cfg_attr(kani, kani::stub(std::fmt::format, crate::verif_common::stub_format))]
+#[cfg_attr(kani, kani::stub(std::io::Error::is_interrupted, crate::verif_common::stub_not_interrupted))]
+#[cfg_attr(kani, kani::stub(crate::decode::lzma::DecoderState::process_next_inner, crate::decode::lzma::verif_h::abs_symbol))]
+pub fn partial_p18_r3_l5_20_3() {
+    partial_step::<18, 3, 5, 20, 3>()
+}
+
+//@ harness props=C05,C15 tier=thorough unwind=22 unwindset=process_mode:7 mem_gb=4 timeout=900 native=no opt_covers=commit_and_carry,nothing_committed
+//@ bound: one process_stream call: carry 18 bytes, reader 3 bytes, symbol lengths 19,2,20(,20); contents/range/code symbolic; abstract symbols
+#[cfg_attr(kani, kani::proof)]
+#[cfg_attr(kani, kani::stub(std::fmt::format, crate::verif_common::stub_format))]
+#[cfg_attr(kani, kani::stub(std::io::Error::is_interrupted, crate::verif_common::stub_not_interrupted))]
+#[cfg_attr(kani, kani::stub(crate::decode::lzma::DecoderState::process_next_inner, crate::decode::lzma::verif_h::abs_symbol))]
+pub fn partial_p18_r3_l19_2_20() {
+    partial_step::<18, 3, 19, 2, 20>()
+}
+
+//@ harness props=C05,C15 tier=thorough unwind=22 unwindset=process_mode:7 mem_gb=4 timeout=900 native=no opt_covers=commit_and_carry,nothing_committed
+//@ bound: one process_stream call: carry 18 bytes, reader 8 bytes, symbol lengths 1,1,1(,20); contents/range/code symbolic; abstract symbols
+#[cfg_attr(kani, kani::proof)]
+#[cfg_attr(kani, kani::stub(std::fmt::format, crate::verif_common::stub_format))]
+#[cfg_attr(kani, kani::stub(std::io::Error::is_interrupted, crate::verif_common::stub_not_interrupted))]
+#[cfg_attr(kani, kani::stub(crate::decode::lzma::DecoderState::process_next_inner, crate::decode::lzma::verif_h::abs_symbol))]
+pub fn partial_p18_r8_l1_1_1() {
+    partial_step::<18, 8, 1, 1, 1>()
+}
+
+//@ harness props=C05,C15 tier=thorough unwind=22 unwindset=process_mode:7 mem_gb=4 timeout=900 native=no opt_covers=commit_and_carry,nothing_committed
+//@ bound: one process_stream call: carry 18 bytes, reader 8 bytes, symbol lengths 2,19,1(,20); contents/range/code symbolic; abstract symbols
+#[cfg_attr(kani, kani::proof)]
+#[cfg_attr(kani, kani::stub(std::fmt::format, crate::verif_common::stub_format))]
+#[cfg_attr(kani, kani::stub(std::io::Error::is_interrupted, crate::verif_common::stub_not_interrupted))]
+#[cfg_attr(kani, kani::stub(crate::decode::lzma::DecoderState::process_next_inner, crate::decode::lzma::verif_h::abs_symbol))]
+pub fn partial_p18_r8_l2_19_1() {
+    partial_step::<18, 8, 2, 19, 1>()
+}
+
+//@ harness props=C05,C15 tier=thorough unwind=22 unwindset=process_mode:7 mem_gb=4 timeout=900 native=no opt_covers=commit_and_carry,nothing_committed
+//@ bound: one process_stream call: carry 18 bytes, reader 8 bytes, symbol lengths 20,1,1(,20); contents/range/code symbolic; abstract symbols
+#[cfg_attr(kani, kani::proof)]
+#[cfg_attr(kani, kani::stub(std::fmt::format, crate::verif_common::stub_format))]
+#[cfg_attr(kani, kani::stub(std::io::Error::is_interrupted, crate::verif_common::stub_not_interrupted))]
+#[cfg_attr(kani, kani::stub(crate::decode::lzma::DecoderState::process_next_inner, crate::decode::lzma::verif_h::abs_symbol))]
+pub fn partial_p18_r8_l20_1_1() {
+    partial_step::<18, 8, 20, 1, 1>()
+}
+
+//@ harness props=C05,C15 tier=thorough unwind=22 unwindset=process_mode:7 mem_gb=4 timeout=900 native=no opt_covers=commit_and_carry,nothing_committed
+//@ bound: one process_stream call: carry 18 bytes, reader 8 bytes, symbol lengths 5,20,3(,20); contents/range/code symbolic; abstract symbols
+#[cfg_attr(kani, kani::proof)]
+#[cfg_attr(kani, kani::stub(std::fmt::format, crate::verif_common::stub_format))]
+#[cfg_attr(kani, kani::stub(std::io::Error::is_interrupted, crate::verif_common::stub_not_interrupted))]
+#[cfg_attr(kani, kani::stub(crate::decode::lzma::DecoderState::process_next_inner, crate::decode::lzma::verif_h::abs_symbol))]
+pub fn partial_p18_r8_l5_20_3() {
+    partial_step::<18, 8, 5, 20, 3>()
+}
+
+//@ harness props=C05,C15 tier=thorough unwind=22 unwindset=process_mode:7 mem_gb=4 timeout=900 native=no opt_covers=commit_and_carry,nothing_committed
+//@ bound: one process_stream call: carry 18 bytes, reader 8 bytes, symbol lengths 19,2,20(,20); contents/range/code symbolic; abstract symbols
+#[cfg_attr(kani, kani::proof)]
+#[cfg_attr(kani, kani::stub(std::fmt::format, crate::verif_common::stub_format))]
+#[cfg_attr(kani, kani::stub(std::io::Error::is_interrupted, crate::verif_common::stub_not_interrupted))]
+#[cfg_attr(kani, kani::stub(crate::decode::lzma::DecoderState::process_next_inner, crate::decode::lzma::verif_h::abs_symbol))]
+pub fn partial_p18_r8_l19_2_20() {
+    partial_step::<18, 8, 19, 2, 20>()
+}
+
+//@ harness props=C05,C15 tier=thorough unwind=22 unwindset=process_mode:7 mem_gb=4 timeout=900 native=no opt_covers=commit_and_carry,nothing_committed
+//@ bound: one process_stream call: carry 19 bytes, reader 0 bytes, symbol lengths 1,1,1(,20); contents/range/code symbolic; abstract symbols
+#[cfg_attr(kani, kani::proof)]
+#[cfg_attr(kani, kani::stub(std::fmt::format, crate::verif_common::stub_format))]
+#[cfg_attr(kani, kani::stub(std::io::Error::is_interrupted, crate::verif_common::stub_not_interrupted))]
+#[cfg_attr(kani, kani::stub(crate::decode::lzma::DecoderState::process_next_inner, crate::decode::lzma::verif_h::abs_symbol))]
+pub fn partial_p19_r0_l1_1_1() {
+    partial_step::<19, 0, 1, 1, 1>()
+}
+
+//@ harness props=C05,C15 tier=thorough unwind=22 unwindset=process_mode:7 mem_gb=4 timeout=900 native=no opt_covers=commit_and_carry,nothing_committed
+//@ bound: one process_stream call: carry 19 bytes, reader 0 bytes, symbol lengths 2,19,1(,20); contents/range/code symbolic; abstract symbols
+#[cfg_attr(kani, kani::proof)]
+#[cfg_attr(kani, kani::stub(std::fmt::format, crate::verif_common::stub_format))]
+#[cfg_attr(kani, kani::stub(std::io::Error::is_interrupted, crate::verif_common::stub_not_interrupted))]
+#[cfg_attr(kani, kani::stub(crate::decode::lzma::DecoderState::process_next_inner, crate::decode::lzma::verif_h::abs_symbol))]
+pub fn partial_p19_r0_l2_19_1() {
+    partial_step::<19, 0, 2, 19, 1>()
+}
+
+//@ harness props=C05,C15 tier=thorough unwind=22 unwindset=process_mode:7 mem_gb=4 timeout=900 native=no opt_covers=commit_and_carry,nothing_committed
+//@ bound: one process_stream call: carry 19 bytes, reader 0 bytes, symbol lengths 20,1,1(,20); contents/range/code symbolic; abstract symbols
+#[cfg_attr(kani, kani::proof)]
+#[cfg_attr(kani, kani::stub(std::fmt::format, crate::verif_common::stub_format))]
+#[cfg_attr(kani, kani::stub(std::io::Error::is_interrupted, crate::verif_common::stub_not_interrupted))]
+#[cfg_attr(kani, kani::stub(crate::decode::lzma::DecoderState::process_next_inner, crate::decode::lzma::verif_h::abs_symbol))]
+pub fn partial_p19_r0_l20_1_1() {
+    partial_step::<19, 0, 20, 1, 1>()
+}
+
+//@ harness props=C05,C15 tier=thorough unwind=22 unwindset=process_mode:7 mem_gb=4 timeout=900 native=no opt_covers=commit_and_carry,nothing_committed
+//@ bound: one process_stream call: carry 19 bytes, reader 0 bytes, symbol lengths 5,20,3(,20); contents/range/code symbolic; abstract symbols
+#[cfg_attr(kani, kani::proof)]
+#[cfg_attr(kani, kani::stub(std::fmt::format, crate::verif_common::stub_format))]
+#[cfg_attr(kani, kani::stub(std::io::Error::is_interrupted, crate::verif_common::stub_not_interrupted))]
+#[cfg_attr(kani, kani::stub(crate::decode::lzma::DecoderState::process_next_inner, crate::decode::lzma::verif_h::abs_symbol))]
+pub fn partial_p19_r0_l5_20_3() {
+    partial_step::<19, 0, 5, 20, 3>()
+}
+
+//@ harness props=C05,C15 tier=thorough unwind=22 unwindset=process_mode:7 mem_gb=4 timeout=900 native=no opt_covers=commit_and_carry,nothing_committed
+//@ bound: one process_stream call: carry 19 bytes, reader 0 bytes, symbol lengths 19,2,20(,20); contents/range/code symbolic; abstract symbols
+#[cfg_attr(kani, kani::proof)]
+#[cfg_attr(kani, kani::stub(std::fmt::format, crate::verif_common::stub_format))]
+#[cfg_attr(kani, kani::stub(std::io::Error::is_interrupted, crate::verif_common::stub_not_interrupted))]
+#[cfg_attr(kani, kani::stub(crate::decode::lzma::DecoderState::process_next_inner, crate::decode::lzma::verif_h::abs_symbol))]
+pub fn partial_p19_r0_l19_2_20() {
+    partial_step::<19, 0, 19, 2, 20>()
+}
+
+//@ harness props=C05,C15 tier=thorough unwind=22 unwindset=process_mode:7 mem_gb=4 timeout=900 native=no opt_covers=commit_and_carry,nothing_committed
+//@ bound: one process_stream call: carry 19 bytes, reader 1 bytes, symbol lengths 1,1,1(,20); contents/range/code symbolic; abstract symbols
+#[cfg_attr(kani, kani::proof)]
+#[cfg_attr(kani, kani::stub(std::fmt::format, crate::verif_common::stub_format))]
+#[cfg_attr(kani, kani::stub(std::io::Error::is_interrupted, crate::verif_common::stub_not_interrupted))]
+#[cfg_attr(kani, kani::stub(crate::decode::lzma::DecoderState::process_next_inner, crate::decode::lzma::verif_h::abs_symbol))]
+pub fn partial_p19_r1_l1_1_1() {
+    partial_step::<19, 1, 1, 1, 1>()
+}
+
+//@ harness props=C05,C15 tier=thorough unwind=22 unwindset=process_mode:7 mem_gb=4 timeout=900 native=no opt_covers=commit_and_carry,nothing_committed
+//@ bound: one process_stream call: carry 19 bytes, reader 1 bytes, symbol lengths 2,19,1(,20); contents/range/code symbolic; abstract symbols
+#[cfg_attr(kani, kani::proof)]
+#[cfg_attr(kani, kani::stub(std::fmt::format, crate::verif_common::stub_format))]
+#[cfg_attr(kani, kani::stub(std::io::Error::is_interrupted, crate::verif_common::stub_not_interrupted))]
+#[cfg_attr(kani, kani::stub(crate::decode::lzma::DecoderState::process_next_inner, crate::decode::lzma::verif_h::abs_symbol))]
+pub fn partial_p19_r1_l2_19_1() {
+    partial_step::<19, 1, 2, 19, 1>()
+}
+
+//@ harness props=C05,C15 tier=thorough unwind=22 unwindset=process_mode:7 mem_gb=4 timeout=900 native=no opt_covers=commit_and_carry,nothing_committed
+//@ bound: one process_stream call: carry 19 bytes, reader 1 bytes, symbol lengths 20,1,1(,20); contents/range/code symbolic; abstract symbols
+#[cfg_attr(kani, kani::proof)]
+#[cfg_attr(kani, kani::stub(std::fmt::format, crate::verif_common::stub_format))]
+#[cfg_attr(kani, kani::stub(std::io::Error::is_interrupted, crate::verif_common::stub_not_interrupted))]
+#[cfg_attr(kani, kani::stub(crate::decode::lzma::DecoderState::process_next_inner, crate::decode::lzma::verif_h::abs_symbol))]
+pub fn partial_p19_r1_l20_1_1() {
+    partial_step::<19, 1, 20, 1, 1>()
+}
+
+//@ harness props=C05,C15 tier=thorough unwind=22 unwindset=process_mode:7 mem_gb=4 timeout=900 native=no opt_covers=commit_and_carry,nothing_committed
+//@ bound: one process_stream call: carry 19 bytes, reader 1 bytes, symbol lengths 5,20,3(,20); contents/range/code symbolic; abstract symbols
+#[cfg_attr(kani, kani::proof)]
+#[cfg_attr(kani, kani::stub(std::fmt::format, crate::verif_common::stub_format))]
+#[cfg_attr(kani, kani::stub(std::io::Error::is_interrupted, crate::verif_common::stub_not_interrupted))]
+#[cfg_attr(kani, kani::stub(crate::decode::lzma::DecoderState::process_next_inner, crate::decode::lzma::verif_h::abs_symbol))]
+pub fn partial_p19_r1_l5_20_3() {
+    partial_step::<19, 1, 5, 20, 3>()
+}
+
+//@ harness props=C05,C15 tier=thorough unwind=22 unwindset=process_mode:7 mem_gb=4 timeout=900 native=no opt_covers=commit_and_carry,nothing_committed
+//@ bound: one process_stream call: carry 19 bytes, reader 1 bytes, symbol lengths 19,2,20(,20); contents/range/code symbolic; abstract symbols
+#[cfg_attr(kani, kani::proof)]
+#[cfg_attr(kani, kani::stub(std::fmt::format, crate::verif_common::stub_format))]
+#[cfg_attr(kani, kani::stub(std::io::Error::is_interrupted, crate::verif_common::stub_not_interrupted))]
+#[cfg_attr(kani, kani::stub(crate::decode::lzma::DecoderState::process_next_inner, crate::decode::lzma::verif_h::abs_symbol))]
+pub fn partial_p19_r1_l19_2_20() {
+    partial_step::<19, 1, 19, 2, 20>()
+}
+
+//@ harness props=C05,C15 tier=thorough unwind=22 unwindset=process_mode:7 mem_gb=4 timeout=900 native=no opt_covers=commit_and_carry,nothing_committed
+//@ bound: one process_stream call: carry 19 bytes, reader 3 bytes, symbol lengths 1,1,1(,20); contents/range/code symbolic; abstract symbols
+#[cfg_attr(kani, kani::proof)]
+#[cfg_attr(kani, kani::stub(std::fmt::format, crate::verif_common::stub_format))]
+#[cfg_attr(kani, kani::stub(std::io::Error::is_interrupted, crate::verif_common::stub_not_interrupted))]
+#[cfg_attr(kani, kani::stub(crate::decode::lzma::DecoderState::process_next_inner, crate::decode::lzma::verif_h::abs_symbol))]
+pub fn partial_p19_r3_l1_1_1() {
+    partial_step::<19, 3, 1, 1, 1>()
+}
+
+//@ harness props=C05,C15 tier=thorough unwind=22 unwindset=process_mode:7 mem_gb=4 timeout=900 native=no opt_covers=commit_and_carry,nothing_committed
+//@ bound: one process_stream call: carry 19 bytes, reader 3 bytes, symbol lengths 2,19,1(,20); contents/range/code symbolic; abstract symbols
+#[cfg_attr(kani, kani::proof)]
+#[cfg_attr(kani, kani::stub(std::fmt::format, crate::verif_common::stub_format))]
+#[cfg_attr(kani, kani::stub(std::io::Error::is_interrupted, crate::verif_common::stub_not_interrupted))]
+#[cfg_attr(kani, kani::stub(crate::decode::lzma::DecoderState::process_next_inner, crate::decode::lzma::verif_h::abs_symbol))]
+pub fn partial_p19_r3_l2_19_1() {
+    partial_step::<19, 3, 2, 19, 1>()
+}
+
+//@ harness props=C05,C15 tier=thorough unwind=22 unwindset=process_mode:7 mem_gb=4 timeout=900 native=no opt_covers=commit_and_carry,nothing_committed
+//@ bound: one process_stream call: carry 19 bytes, reader 3 bytes, symbol lengths 20,1,1(,20); contents/range/code symbolic; abstract symbols
+#[cfg_attr(kani, kani::proof)]
+#[cfg_attr(kani, kani::stub(std::fmt::format, crate::verif_common::stub_format))]
+#[cfg_attr(kani, kani::stub(std::io::Error::is_interrupted, crate::verif_common::stub_not_interrupted))]
+#[cfg_attr(kani, kani::stub(crate::decode::lzma::DecoderState::process_next_inner, crate::decode::lzma::verif_h::abs_symbol))]
+pub fn partial_p19_r3_l20_1_1() {
+    partial_step::<19, 3, 20, 1, 1>()
+}
+
+//@ harness props=C05,C15 tier=thorough unwind=22 unwindset=process_mode:7 mem_gb=4 timeout=900 native=no opt_covers=commit_and_carry,nothing_committed
+//@ bound: one process_stream call: carry 19 bytes, reader 3 bytes, symbol lengths 5,20,3(,20); contents/range/code symbolic; abstract symbols
+#[cfg_attr(kani, kani::proof)]
+#[cfg_attr(kani, kani::stub(std::fmt::format, crate::verif_common::stub_format))]
+#[cfg_attr(kani, kani::stub(std::io::Error::is_interrupted, crate::verif_common::stub_not_interrupted))]
+#[cfg_attr(kani, kani::stub(crate::decode::lzma::DecoderState::process_next_inner, crate::decode::lzma::verif_h::abs_symbol))]
+pub fn partial_p19_r3_l5_20_3() {
+    partial_step::<19, 3, 5, 20, 3>()
+}
+
+//@ harness props=C05,C15 tier=thorough unwind=22 unwindset=process_mode:7 mem_gb=4 timeout=900 native=no opt_covers=commit_and_carry,nothing_committed
+//@ bound: one process_stream call: carry 19 bytes, reader 3 bytes, symbol lengths 19,2,20(,20); contents/range/code symbolic; abstract symbols
+#[cfg_attr(kani, kani::proof)]
+#[cfg_attr(kani, kani::stub(std::fmt::format, crate::verif_common::stub_format))]
+#[cfg_attr(kani, kani::stub(std::io::Error::is_interrupted, crate::verif_common::stub_not_interrupted))]
+#[cfg_attr(kani, kani::stub(crate::decode::lzma::DecoderState::process_next_inner, crate::decode::lzma::verif_h::abs_symbol))]
+pub fn partial_p19_r3_l19_2_20() {
+    partial_step::<19, 3, 19, 2, 20>()
+}
+
+//@ harness props=C05,C15 tier=thorough unwind=22 unwindset=process_mode:7 mem_gb=4 timeout=900 native=no opt_covers=commit_and_carry,nothing_committed
+//@ bound: one process_stream call: carry 19 bytes, reader 8 bytes, symbol lengths 1,1,1(,20); contents/range/code symbolic; abstract symbols
+#[cfg_attr(kani, kani::proof)]
+#[cfg_attr(kani, kani::stub(std::fmt::format, crate::verif_common::stub_format))]
+#[cfg_attr(kani, kani::stub(std::io::Error::is_interrupted, crate::verif_common::stub_not_interrupted))]
+#[cfg_attr(kani, kani::stub(crate::decode::lzma::DecoderState::process_next_inner, crate::decode::lzma::verif_h::abs_symbol))]
+pub fn partial_p19_r8_l1_1_1() {
+    partial_step::<19, 8, 1, 1, 1>()
+}
+
+//@ harness props=C05,C15 tier=thorough unwind=22 unwindset=process_mode:7 mem_gb=4 timeout=900 native=no opt_covers=commit_and_carry,nothing_committed
+//@ bound: one process_stream call: carry 19 bytes, reader 8 bytes, symbol lengths 2,19,1(,20); contents/range/code symbolic; abstract symbols
+#[cfg_attr(kani, kani::proof)]
+#[cfg_attr(kani, kani::stub(std::fmt::format, crate::verif_common::stub_format))]
+#[cfg_attr(kani, kani::stub(std::io::Error::is_interrupted, crate::verif_common::stub_not_interrupted))]
+#[cfg_attr(kani, kani::stub(crate::decode::lzma::DecoderState::process_next_inner, crate::decode::lzma::verif_h::abs_symbol))]
+pub fn partial_p19_r8_l2_19_1() {
+    partial_step::<19, 8, 2, 19, 1>()
+}
+
+//@ harness props=C05,C15 tier=thorough unwind=22 unwindset=process_mode:7 mem_gb=4 timeout=900 native=no opt_covers=commit_and_carry,nothing_committed
+//@ bound: one process_stream call: carry 19 bytes, reader 8 bytes, symbol lengths 20,1,1(,20); contents/range/code symbolic; abstract symbols
+#[cfg_attr(kani, kani::proof)]
+#[cfg_attr(kani, kani::stub(std::fmt::format, crate::verif_common::stub_format))]
+#[cfg_attr(kani, kani::stub(std::io::Error::is_interrupted, crate::verif_common::stub_not_interrupted))]
+#[cfg_attr(kani, kani::stub(crate::decode::lzma::DecoderState::process_next_inner, crate::decode::lzma::verif_h::abs_symbol))]
+pub fn partial_p19_r8_l20_1_1() {
+    partial_step::<19, 8, 20, 1, 1>()
+}
+
+//@ harness props=C05,C15 tier=thorough unwind=22 unwindset=process_mode:7 mem_gb=4 timeout=900 native=no opt_covers=commit_and_carry,nothing_committed
+//@ bound: one process_stream call: carry 19 bytes, reader 8 bytes, symbol lengths 5,20,3(,20); contents/range/code symbolic; abstract symbols
+#[cfg_attr(kani, kani::proof)]
+#[cfg_attr(kani, kani::stub(std::fmt::format, crate::verif_common::stub_format))]
+#[cfg_attr(kani, kani::stub(std::io::Error::is_interrupted, crate::verif_common::stub_not_interrupted))]
+#[cfg_attr(kani, kani::stub(crate::decode::lzma::DecoderState::process_next_inner, crate::decode::lzma::verif_h::abs_symbol))]
+pub fn partial_p19_r8_l5_20_3() {
+    partial_step::<19, 8, 5, 20, 3>()
+}
+
+//@ harness props=C05,C15 tier=thorough unwind=22 unwindset=process_mode:7 mem_gb=4 timeout=900 native=no opt_covers=commit_and_carry,nothing_committed
+//@ bound: one process_stream call: carry 19 bytes, reader 8 bytes, symbol lengths 19,2,20(,20); contents/range/code symbolic; abstract symbols
+#[cfg_attr(kani, kani::proof)]
+#[cfg_attr(kani, kani::stub(std::fmt::format, crate::verif_common::stub_format))]
+#[cfg_attr(kani, kani::stub(std::io::Error::is_interrupted, crate::verif_common::stub_not_interrupted))]
+#[cfg_attr(kani, kani::stub(crate::decode::lzma::DecoderState::process_next_inner, crate::decode::lzma::verif_h::abs_symbol))]
+pub fn partial_p19_r8_l19_2_20() {
+    partial_step::<19, 8, 19, 2, 20>()
+}
